@@ -1,784 +1,3 @@
-// GENERATED by harness/gen/zoo.py - build artefact, do not edit
-pub const GEN_HASH: &str = "4c4294527e870fc2";
-shredh::zoo_case!(c3, 3, 'a, ((), Read<'a, D1, Hc<D3>>, ));
-#[derive(SystemData)] pub struct Z11_1<'a> { f0: PhantomData<&'a u8>, }
-#[derive(SystemData)] pub struct Z11_0<'a> { f0: Z11_1<'a>, }
-shredh::zoo_case!(c11, 11, 'a, Z11_0<'a>);
-#[derive(SystemData)] pub struct Z19_0<'a>(Option<WriteExpect<'a, D0>>);
-shredh::zoo_case!(c19, 19, 'a, (Z19_0<'a>, (Read<'a, D0, Hc<D3>>, ), ));
-shredh::zoo_case!(c27, 27, 'a, (Read<'a, D1, PanicHandler>, ));
-#[derive(SystemData)] pub struct Z35_0<'a>(pub (Read<'a, D0, Hc<D2>>, ), pub (Read<'a, D0, PanicHandler>, ));
-shredh::zoo_case!(c35, 35, 'a, Z35_0<'a>);
-#[derive(SystemData)] pub struct Z43_0<'a, T0: Resource + ZRes>(pub Read<'a, T0, PanicHandler>);
-shredh::zoo_case!(c43, 43, 'a, Z43_0<'a, D2>);
-#[derive(SystemData)] pub struct Z51_1<'a, T0>(Read<'a, T0>) where T0: Debug + Resource + for<'b> Hrtb<'b> + Default;
-#[derive(SystemData)] pub struct Z51_2<'a, T0: Resource>(Option<Read<'a, T0, PanicHandler>>);
-#[derive(SystemData)] pub struct Z51_0<'a> { f0: Z51_1<'a, D2>, f1: Z51_2<'a, D2>, }
-shredh::zoo_case!(c51, 51, 'a, Z51_0<'a>);
-#[derive(SystemData)] pub struct Z59_0<'a, T0> where T0: Debug + Resource + for<'b> Hrtb<'b> { pub f0: Option<ReadExpect<'a, T0>>, }
-shredh::zoo_case!(c59, 59, 'a, Z59_0<'a, N0>);
-shredh::zoo_case!(c67, 67, 'a, (Option<WriteExpect<'a, D3>>, Write<'a, D3>, WriteExpect<'a, D3>, ));
-#[derive(SystemData)] pub struct Z75_0<'a> { f0: ReadExpect<'a, D3>, }
-shredh::zoo_case!(c75, 75, 'a, (Write<'a, D3, Hc<D1>>, Z75_0<'a>, ));
-#[derive(SystemData)] pub struct Z83_0<'a, U0, U1>(pub Write<'a, D0>, pub U0, pub U1) where U0: SystemData<'a>, U1: SystemData<'a>;
-shredh::zoo_case!(c83, 83, 'a, Z83_0<'a, Option<Read<'a, N1>>, Option<WriteExpect<'a, N1>>>);
-#[derive(SystemData)] pub struct Z91_1<'a> { pub f0: Write<'a, D0, Hc<D3>>, }
-#[derive(SystemData)] pub struct Z91_0<'a>(pub Z91_1<'a>, pub WriteExpect<'a, D3>);
-shredh::zoo_case!(c91, 91, 'a, Z91_0<'a>);
-#[derive(SystemData)] pub struct Z99_0<'a, U0, U1> where U0: SystemData<'a>, U1: SystemData<'a> { pub f0: U0, pub f1: U1, pub f2: Read<'a, N0, PanicHandler>, }
-shredh::zoo_case!(c99, 99, 'a, Z99_0<'a, Option<Write<'a, N0>>, Option<Write<'a, N2, PanicHandler>>>);
-#[derive(SystemData)] pub struct Z107_0<'a, 'x> { pub f0: (Read<'a, D2, DefaultProvider>, ), pub f1: PhantomData<&'x i64>, }
-shredh::zoo_case!(c107, 107, 'a, Z107_0<'a, 'a>);
-shredh::zoo_case!(c115, 115, 'a, Write<'a, D0, Hc<D1>>);
-shredh::zoo_case!(c123, 123, 'a, ((), WriteExpect<'a, N2>, ));
-shredh::zoo_case!(c131, 131, 'a, ((Option<WriteExpect<'a, N1>>, ), ));
-#[derive(SystemData)] pub struct Z139_0<'a>(pub Write<'a, D3, Hc<D0>>, pub Option<Read<'a, D0, PanicHandler>>);
-shredh::zoo_case!(c139, 139, 'a, Z139_0<'a>);
-#[derive(SystemData)] pub struct Z147_1<'a> { pub f0: Write<'a, D3>, }
-#[derive(SystemData)] pub struct Z147_0<'a>(Z147_1<'a>);
-shredh::zoo_case!(c147, 147, 'a, Z147_0<'a>);
-#[derive(SystemData)] pub struct Z155_0<'a, T0> where T0: Debug + Resource + for<'b> Hrtb<'b> { pub f0: Write<'a, T0, Hc<D2>>, pub f1: Write<'a, D2, Hc<D0>>, }
-shredh::zoo_case!(c155, 155, 'a, Z155_0<'a, D0>);
-#[derive(SystemData)] pub struct Z163_1<'a>(PhantomData<&'a u8>);
-#[derive(SystemData)] pub struct Z163_0<'a> { pub f0: Z163_1<'a>, }
-shredh::zoo_case!(c163, 163, 'a, Z163_0<'a>);
-#[derive(SystemData)] pub struct Z171_0<'a> { pub f0: Write<'a, D2, PanicHandler>, }
-shredh::zoo_case!(c171, 171, 'a, (Z171_0<'a>, (Read<'a, D2, Hc<D1>>, ), ));
-shredh::zoo_case!(c179, 179, 'a, (Option<Read<'a, N2, PanicHandler>>, ));
-#[derive(SystemData)] pub struct Z187_1<'a, T0>(pub Read<'a, T0, DefaultProvider>) where T0: Resource + ZRes;
-#[derive(SystemData)] pub struct Z187_2<'a> { f0: PhantomData<&'a u8>, }
-#[derive(SystemData)] pub struct Z187_0<'a>(pub Z187_1<'a, D3>, pub Z187_2<'a>);
-shredh::zoo_case!(c187, 187, 'a, Z187_0<'a>);
-#[derive(SystemData)] pub struct Z195_0<'a>(pub Read<'a, N0, PanicHandler>);
-shredh::zoo_case!(c195, 195, 'a, Z195_0<'a>);
-shredh::zoo_case!(c203, 203, 'a, (((), ), (ReadExpect<'a, N1>, ), ));
-#[derive(SystemData)] pub struct Z211_0<'a> { f0: Read<'a, D1, PanicHandler>, }
-shredh::zoo_case!(c211, 211, 'a, Z211_0<'a>);
-shredh::zoo_case!(c219, 219, 'a, (Option<Write<'a, D2>>, ReadExpect<'a, D1>, Write<'a, D2>, ));
-shredh::zoo_case!(c227, 227, 'a, (Write<'a, D3, Hc<D2>>, (Read<'a, D2, DefaultProvider>, ), ));
-#[derive(SystemData)] pub struct Z235_0<'a, U0: SystemData<'a>>(pub Option<Read<'a, D3, PanicHandler>>, pub Write<'a, D3>, pub U0);
-shredh::zoo_case!(c235, 235, 'a, Z235_0<'a, Write<'a, D1>>);
-#[derive(SystemData)] pub struct Z243_0<'a, T0: Resource>(((), ), Read<'a, T0, DefaultProvider>);
-shredh::zoo_case!(c243, 243, 'a, Z243_0<'a, D3>);
-#[derive(SystemData)] pub struct Z251_0<'a> { pub f0: Read<'a, D1>, pub f1: Read<'a, D1, DefaultProvider>, pub f2: Option<Read<'a, D2>>, }
-shredh::zoo_case!(c251, 251, 'a, Z251_0<'a>);
-#[derive(SystemData)] pub struct Z259_1<'a>(pub Write<'a, D3, Hc<D2>>);
-#[derive(SystemData)] pub struct Z259_0<'a> { f0: (), f1: Z259_1<'a>, }
-shredh::zoo_case!(c259, 259, 'a, Z259_0<'a>);
-shredh::zoo_case!(c267, 267, 'a, Read<'a, D2, Hc<D0>>);
-shredh::zoo_case!(c275, 275, 'a, (Read<'a, D0, DefaultProvider>, Option<ReadExpect<'a, D2>>, ));
-#[derive(SystemData)] pub struct Z283_0<'a>(Write<'a, D3, Hc<D1>>);
-shredh::zoo_case!(c283, 283, 'a, (Z283_0<'a>, ));
-#[derive(SystemData)] pub struct Z291_0<'a, U0: SystemData<'a>>(U0, Read<'a, D3>);
-shredh::zoo_case!(c291, 291, 'a, Z291_0<'a, WriteExpect<'a, N0>>);
-shredh::zoo_case!(c299, 299, 'a, (((), ), ));
-#[derive(SystemData)] pub struct Z307_0<'a> { pub f0: PhantomData<u8>, pub f1: Write<'a, D0, DefaultProvider>, }
-shredh::zoo_case!(c307, 307, 'a, Z307_0<'a>);
-#[derive(SystemData)] pub struct Z315_0<'a> { f0: (Write<'a, D1, Hc<D0>>, ), }
-shredh::zoo_case!(c315, 315, 'a, Z315_0<'a>);
-shredh::zoo_case!(c323, 323, 'a, ((Read<'a, N0, PanicHandler>, ), (Read<'a, N0, PanicHandler>, ), ));
-shredh::zoo_case!(c331, 331, 'a, ((), ));
-#[derive(SystemData)] pub struct Z339_1<'a, T0> where T0: Debug + Resource { f0: Read<'a, T0, Hc<D2>>, }
-#[derive(SystemData)] pub struct Z339_0<'a>(Z339_1<'a, D1>, (Option<Read<'a, D1>>, ));
-shredh::zoo_case!(c339, 339, 'a, Z339_0<'a>);
-#[derive(SystemData)] pub struct Z347_0<'a>(pub Write<'a, N0, PanicHandler>);
-shredh::zoo_case!(c347, 347, 'a, Z347_0<'a>);
-#[derive(SystemData)] pub struct Z355_1<'a> { pub f0: Option<Write<'a, N2>>, }
-#[derive(SystemData)] pub struct Z355_2<'a> { pub f0: Option<WriteExpect<'a, N2>>, }
-#[derive(SystemData)] pub struct Z355_0<'a, U0: SystemData<'a>> { f0: Z355_1<'a>, f1: U0, }
-shredh::zoo_case!(c355, 355, 'a, Z355_0<'a, Z355_2<'a>>);
-#[derive(SystemData)] pub struct Z363_0<'a, T0> where T0: Resource + ZRes { f0: ReadExpect<'a, T0>, }
-shredh::zoo_case!(c363, 363, 'a, Z363_0<'a, D2>);
-shredh::zoo_case!(c371, 371, 'a, (Write<'a, N1, PanicHandler>, Read<'a, D2, DefaultProvider>, WriteExpect<'a, N1>, ));
-#[derive(SystemData)] pub struct Z379_0<'a> { f0: ReadExpect<'a, D0>, }
-shredh::zoo_case!(c379, 379, 'a, (Read<'a, D0, Hc<D1>>, Z379_0<'a>, ));
-#[derive(SystemData)] pub struct Z387_0<'a, U0: SystemData<'a>, U1>(pub Write<'a, D1>, pub U0, pub U1) where U1: SystemData<'a>;
-shredh::zoo_case!(c387, 387, 'a, Z387_0<'a, Read<'a, D0>, PhantomData<fn() -> N2>>);
-#[derive(SystemData)] pub struct Z395_1<'a, T0> where T0: Debug + Resource + for<'b> Hrtb<'b> { f0: Option<Write<'a, T0, PanicHandler>>, }
-#[derive(SystemData)] pub struct Z395_0<'a>(pub Z395_1<'a, N1>, pub Read<'a, N1, PanicHandler>);
-shredh::zoo_case!(c395, 395, 'a, Z395_0<'a>);
-#[derive(SystemData)] pub struct Z403_0<'a> { pub f0: Option<Write<'a, D3, PanicHandler>>, pub f1: Option<Read<'a, D3>>, pub f2: Option<Read<'a, D0, PanicHandler>>, }
-shredh::zoo_case!(c403, 403, 'a, Z403_0<'a>);
-#[derive(SystemData)] pub struct Z411_1<'a> { f0: PhantomData<&'a u8>, }
-#[derive(SystemData)] pub struct Z411_0<'a, T0: Debug + Resource + for<'b> Hrtb<'b>> { f0: Z411_1<'a>, f1: Write<'a, T0, Hc<D3>>, }
-shredh::zoo_case!(c411, 411, 'a, Z411_0<'a, D0>);
-shredh::zoo_case!(c419, 419, 'a, Read<'a, N1, PanicHandler>);
-shredh::zoo_case!(c427, 427, 'a, (Write<'a, D1, DefaultProvider>, Read<'a, D0, PanicHandler>, ));
-shredh::zoo_case!(c435, 435, 'a, ((PhantomData<D0>, ), ));
-#[derive(SystemData)] pub struct Z443_0<'a>(pub Write<'a, D2, Hc<D1>>, pub Read<'a, D1, Hc<D2>>);
-shredh::zoo_case!(c443, 443, 'a, Z443_0<'a>);
-shredh::zoo_case!(c451, 451, 'a, (((), ), ));
-#[derive(SystemData)] pub struct Z459_0<'a, T0: Resource + ZRes, T1: Debug + Resource + for<'b> Hrtb<'b>> { f0: Read<'a, T0, PanicHandler>, f1: Read<'a, T1, PanicHandler>, }
-shredh::zoo_case!(c459, 459, 'a, Z459_0<'a, N3, N0>);
-#[derive(SystemData)] pub struct Z467_0<'a> { pub f0: (Read<'a, D0, Hc<D2>>, ), }
-shredh::zoo_case!(c467, 467, 'a, Z467_0<'a>);
-#[derive(SystemData)] pub struct Z475_0<'a, T0: Resource + Default>(pub Read<'a, T0, DefaultProvider>);
-#[derive(SystemData)] pub struct Z475_1<'a, T0>(pub Option<Read<'a, T0>>) where T0: Debug + Resource;
-shredh::zoo_case!(c475, 475, 'a, (Z475_0<'a, D1>, Z475_1<'a, D1>, ));
-shredh::zoo_case!(c483, 483, 'a, (WriteExpect<'a, N0>, ));
-#[derive(SystemData)] pub struct Z491_0<'a>(pub (Option<WriteExpect<'a, D3>>, ), pub (Read<'a, D3, Hc<D1>>, ));
-shredh::zoo_case!(c491, 491, 'a, Z491_0<'a>);
-shredh::zoo_case!(c499, 499, 'a, (Write<'a, D1, Hc<D0>>, ));
-#[derive(SystemData)] pub struct Z507_1<'a>(Read<'a, D1, Hc<D3>>);
-#[derive(SystemData)] pub struct Z507_0<'a, U0: SystemData<'a>> { f0: U0, f1: (Write<'a, D3>, ), }
-shredh::zoo_case!(c507, 507, 'a, Z507_0<'a, Z507_1<'a>>);
-#[derive(SystemData)] pub struct Z515_0<'a, T0: Debug + Resource> { f0: Read<'a, T0, PanicHandler>, }
-shredh::zoo_case!(c515, 515, 'a, Z515_0<'a, N1>);
-shredh::zoo_case!(c523, 523, 'a, (Option<Read<'a, N3>>, Option<Write<'a, N0, PanicHandler>>, (), ));
-#[derive(SystemData)] pub struct Z531_0<'a, T0: Debug + Resource>(pub Write<'a, T0, Hc<D0>>);
-shredh::zoo_case!(c531, 531, 'a, (Z531_0<'a, D2>, Option<ReadExpect<'a, D0>>, ));
-#[derive(SystemData)] pub struct Z539_0<'a, T0, T1>(pub Option<WriteExpect<'a, T0>>, pub Write<'a, T1, PanicHandler>, pub Option<WriteExpect<'a, D2>>) where T0: Resource + ZRes, T1: Resource;
-shredh::zoo_case!(c539, 539, 'a, Z539_0<'a, D2, N1>);
-#[derive(SystemData)] pub struct Z547_1<'a> { pub f0: PhantomData<(Write<'a, D1>,)>, }
-#[derive(SystemData)] pub struct Z547_0<'a, U0: SystemData<'a>>(Read<'a, D2, Hc<D0>>, U0);
-shredh::zoo_case!(c547, 547, 'a, Z547_0<'a, Z547_1<'a>>);
-#[derive(SystemData)] pub struct Z555_0<'a> { f0: Read<'a, D3>, f1: Option<WriteExpect<'a, D0>>, f2: Write<'a, D0>, }
-shredh::zoo_case!(c555, 555, 'a, Z555_0<'a>);
-shredh::zoo_case!(c563, 563, 'a, (Write<'a, D3, Hc<D2>>, (Write<'a, D3, DefaultProvider>, ), ));
-shredh::zoo_case!(c571, 571, 'a, Read<'a, D2>);
-shredh::zoo_case!(c579, 579, 'a, (Option<Read<'a, N0>>, Read<'a, N3, PanicHandler>, ));
-#[derive(SystemData)] pub struct Z587_0<'a> { f0: Read<'a, D1, Hc<D2>>, }
-shredh::zoo_case!(c587, 587, 'a, (Z587_0<'a>, ));
-#[derive(SystemData)] pub struct Z595_0<'a, T0, T1>(Read<'a, T0, Hc<D3>>, Write<'a, T1, PanicHandler>) where T0: Debug + Resource + for<'b> Hrtb<'b>, T1: Debug + Resource;
-shredh::zoo_case!(c595, 595, 'a, Z595_0<'a, D2, D3>);
-shredh::zoo_case!(c603, 603, 'a, ((Write<'a, D3, Hc<D2>>, ), ));
-#[derive(SystemData)] pub struct Z611_0<'a>(pub Option<Read<'a, N2>>, pub WriteExpect<'a, N2>);
-shredh::zoo_case!(c611, 611, 'a, Z611_0<'a>);
-#[derive(SystemData)] pub struct Z619_1<'a, T0>(Write<'a, T0>) where T0: Resource + ZRes;
-#[derive(SystemData)] pub struct Z619_0<'a>(pub Write<'a, D2, Hc<D3>>, pub Z619_1<'a, D2>);
-shredh::zoo_case!(c619, 619, 'a, Z619_0<'a>);
-#[derive(SystemData)] pub struct Z627_0<'a, T0, T1: Resource + ZRes>(pub Read<'a, D2>, pub Option<ReadExpect<'a, T0>>, pub Read<'a, T1>) where T0: Debug + Resource;
-shredh::zoo_case!(c627, 627, 'a, Z627_0<'a, D2, D0>);
-#[derive(SystemData)] pub struct Z635_1<'a> { f0: ReadExpect<'a, D0>, }
-#[derive(SystemData)] pub struct Z635_2<'a> { f0: Write<'a, D2, Hc<D0>>, }
-#[derive(SystemData)] pub struct Z635_0<'a>(pub Z635_1<'a>, pub Z635_2<'a>);
-shredh::zoo_case!(c635, 635, 'a, Z635_0<'a>);
-shredh::zoo_case!(c643, 643, 'a, (Write<'a, D0, PanicHandler>, Read<'a, D0, Hc<D1>>, ));
-shredh::zoo_case!(c651, 651, 'a, ((Write<'a, D1, Hc<D3>>, ), ));
-shredh::zoo_case!(c659, 659, 'a, ((), WriteExpect<'a, N1>, Option<ReadExpect<'a, N1>>, ));
-shredh::zoo_case!(c667, 667, 'a, ((Read<'a, D1, DefaultProvider>, ), Read<'a, D1, Hc<D2>>, ));
-#[derive(SystemData)] pub struct Z675_1<'a> { f0: Write<'a, D2>, }
-#[derive(SystemData)] pub struct Z675_0<'a> { f0: ReadExpect<'a, D2>, f1: Z675_1<'a>, }
-shredh::zoo_case!(c675, 675, 'a, Z675_0<'a>);
-#[derive(SystemData)] pub struct Z683_0<'a>(pub Read<'a, D3>, pub Read<'a, D3, PanicHandler>);
-shredh::zoo_case!(c683, 683, 'a, Z683_0<'a>);
-#[derive(SystemData)] pub struct Z691_0<'a>(pub Read<'a, D3, Hc<D2>>);
-shredh::zoo_case!(c691, 691, 'a, (Option<Read<'a, D2, PanicHandler>>, Z691_0<'a>, ));
-#[derive(SystemData)] pub struct Z699_0<'a, T0> where T0: Resource + ZRes { f0: Read<'a, T0, Hc<D0>>, f1: (Read<'a, D2, DefaultProvider>, ), }
-shredh::zoo_case!(c699, 699, 'a, Z699_0<'a, D2>);
-#[derive(SystemData)] pub struct Z707_0<'a, U0>(ReadExpect<'a, N3>, U0) where U0: SystemData<'a>;
-shredh::zoo_case!(c707, 707, 'a, Z707_0<'a, WriteExpect<'a, N3>>);
-shredh::zoo_case!(c715, 715, 'a, ((Write<'a, D1, Hc<D0>>, ), ReadExpect<'a, D1>, ));
-#[derive(SystemData)] pub struct Z723_1<'a, T0>(Read<'a, T0, Hc<D3>>) where T0: Resource;
-#[derive(SystemData)] pub struct Z723_0<'a, U0> where U0: SystemData<'a> { pub f0: Option<Write<'a, D0>>, pub f1: U0, }
-shredh::zoo_case!(c723, 723, 'a, Z723_0<'a, Z723_1<'a, D0>>);
-#[derive(SystemData)] pub struct Z731_0<'a, T0: Debug + Resource, T1: Debug + Resource>(Option<ReadExpect<'a, T0>>, Read<'a, T1, Hc<D2>>);
-shredh::zoo_case!(c731, 731, 'a, Z731_0<'a, D1, D1>);
-shredh::zoo_case!(c739, 739, 'a, ((WriteExpect<'a, D0>, ), Read<'a, D0, Hc<D1>>, ));
-#[derive(SystemData)] pub struct Z747_0<'a> { f0: Write<'a, D0>, f1: (Read<'a, D0, Hc<D2>>, ), }
-shredh::zoo_case!(c747, 747, 'a, Z747_0<'a>);
-#[derive(SystemData)] pub struct Z755_0<'a, T0>(pub ReadExpect<'a, T0>, pub Write<'a, D1, Hc<D0>>) where T0: Resource;
-shredh::zoo_case!(c755, 755, 'a, Z755_0<'a, D0>);
-shredh::zoo_case!(c763, 763, 'a, ((Option<WriteExpect<'a, N3>>, ), (), ));
-#[derive(SystemData)] pub struct Z771_1<'a>(Write<'a, D2, Hc<D3>>);
-#[derive(SystemData)] pub struct Z771_0<'a> { pub f0: Read<'a, D3>, pub f1: Z771_1<'a>, }
-shredh::zoo_case!(c771, 771, 'a, Z771_0<'a>);
-#[derive(SystemData)] pub struct Z779_0<'a, T0: Debug + Resource, U0>(Option<Read<'a, T0, PanicHandler>>, U0) where U0: SystemData<'a>;
-shredh::zoo_case!(c779, 779, 'a, Z779_0<'a, N3, Option<Read<'a, N3, PanicHandler>>>);
-shredh::zoo_case!(c787, 787, 'a, (Read<'a, D2, Hc<D0>>, ((), ), ));
-#[derive(SystemData)] pub struct Z795_0<'a> { pub f0: (Write<'a, D3, PanicHandler>, ), pub f1: Write<'a, D3, PanicHandler>, }
-shredh::zoo_case!(c795, 795, 'a, Z795_0<'a>);
-#[derive(SystemData)] pub struct Z803_0<'a>(Read<'a, D3, Hc<D1>>, Read<'a, D3, Hc<D1>>);
-shredh::zoo_case!(c803, 803, 'a, Z803_0<'a>);
-shredh::zoo_case!(c811, 811, 'a, (Write<'a, D1, PanicHandler>, (PhantomData<u8>, ), ));
-#[derive(SystemData)] pub struct Z819_0<'a> { pub f0: Read<'a, D0>, pub f1: (Read<'a, D0, PanicHandler>, ), }
-shredh::zoo_case!(c819, 819, 'a, Z819_0<'a>);
-#[derive(SystemData)] pub struct Z827_0<'a>(pub ReadExpect<'a, N0>, pub Read<'a, D1, PanicHandler>);
-shredh::zoo_case!(c827, 827, 'a, Z827_0<'a>);
-#[derive(SystemData)] pub struct Z835_0<'a, T0>(Option<Write<'a, T0, PanicHandler>>) where T0: Debug + Resource;
-shredh::zoo_case!(c835, 835, 'a, (Read<'a, D3, Hc<D0>>, Z835_0<'a, D0>, ));
-#[derive(SystemData)] pub struct Z843_0<'a, T0: Resource> { pub f0: Read<'a, T0, Hc<D1>>, pub f1: (Option<ReadExpect<'a, D0>>, ), }
-shredh::zoo_case!(c843, 843, 'a, Z843_0<'a, D0>);
-#[derive(SystemData)] pub struct Z851_0<'a>(Read<'a, D0, DefaultProvider>, WriteExpect<'a, D0>);
-shredh::zoo_case!(c851, 851, 'a, Z851_0<'a>);
-shredh::zoo_case!(c859, 859, 'a, ((Write<'a, D2, Hc<D0>>, ), ReadExpect<'a, D2>, ));
-#[derive(SystemData)] pub struct Z867_1<'a>(pub WriteExpect<'a, N0>);
-#[derive(SystemData)] pub struct Z867_0<'a, U0: SystemData<'a>> { pub f0: U0, pub f1: Z867_1<'a>, }
-shredh::zoo_case!(c867, 867, 'a, Z867_0<'a, Option<Read<'a, N0, PanicHandler>>>);
-#[derive(SystemData)] pub struct Z875_0<'a>(Option<Read<'a, D3, PanicHandler>>, Read<'a, D3>);
-shredh::zoo_case!(c875, 875, 'a, Z875_0<'a>);
-shredh::zoo_case!(c883, 883, 'a, (Option<Read<'a, D0>>, (Write<'a, D2, Hc<D0>>, ), ));
-#[derive(SystemData)] pub struct Z891_1<'a>(Write<'a, D0, DefaultProvider>);
-#[derive(SystemData)] pub struct Z891_0<'a, T0: Resource + ZRes> { pub f0: Write<'a, T0, Hc<D0>>, pub f1: Z891_1<'a>, }
-shredh::zoo_case!(c891, 891, 'a, Z891_0<'a, D3>);
-#[derive(SystemData)] pub struct Z899_0<'a>(Read<'a, D0, Hc<D1>>, Option<Read<'a, D0>>);
-shredh::zoo_case!(c899, 899, 'a, Z899_0<'a>);
-shredh::zoo_case!(c907, 907, 'a, (Write<'a, D3, DefaultProvider>, (), (), ));
-shredh::zoo_case!(c915, 915, 'a, ((), (), (), (), Option<Read<'a, N3>>, ));
-shredh::zoo_case!(c923, 923, 'a, ((), (), (), (), (), (), (), ));
-shredh::zoo_case!(c931, 931, 'a, ((), (), (), (), (), (), (), (), ));
-shredh::zoo_case!(c939, 939, 'a, ((), (), (), (), (), (), (), Read<'a, D1, Hc<D1>>, ));
-shredh::zoo_case!(c947, 947, 'a, ((), (), (), (), (), (), Write<'a, D2, Hc<D2>>, (), (), (), ));
-shredh::zoo_case!(c955, 955, 'a, ((), (), (), PhantomData<&'a u8>, (), (), (), (), (), (), (), (), (), ));
-shredh::zoo_case!(c963, 963, 'a, ((), (), (), (), (), (), (), (), (), (), (), WriteExpect<'a, N3>, (), ));
-shredh::zoo_case!(c971, 971, 'a, ((), (), (), (), (), Read<'a, D3, Hc<D3>>, (), (), (), (), (), (), (), (), (), ));
-shredh::zoo_case!(c979, 979, 'a, ((), (), (), (), (), (), (), (), (), (), (), (), (), Option<ReadExpect<'a, D0>>, (), ));
-shredh::zoo_case!(c987, 987, 'a, ((), (), (), (), (), PhantomData<fn() -> N2>, (), (), (), (), (), (), (), (), (), (), (), (), (), (), (), ));
-shredh::zoo_case!(c995, 995, 'a, ((), (), (), (), (), (), (), (), (), (), (), (), (), Write<'a, D0, DefaultProvider>, (), (), (), (), (), (), (), ));
-shredh::zoo_case!(c1003, 1003, 'a, ((), (), (), (), (), (), (), (), (), (), (), (), (), (), (), (), (), (), (), (), (), (), (), (), (), (), ));
-shredh::zoo_case!(c1011, 1011, 'a, ((), (), (), (), (), (), (), ReadExpect<'a, N2>, (), (), (), (), (), (), (), (), (), (), (), (), (), (), (), (), (), (), ));
-shredh::zoo_case!(c1019, 1019, 'a, ((), (), (), (), (), (), (), (), (), (), (), (), (), (), (), Option<Write<'a, D3, PanicHandler>>, (), (), (), (), (), (), (), (), (), (), ));
-shredh::zoo_case!(c1027, 1027, 'a, ((), (), (), (), (), (), (), (), (), (), (), (), (), (), (), (), (), (), (), (), (), (), (), Read<'a, D0, PanicHandler>, (), (), ));
-shredh::zoo_case!(c1035, 1035, 'a, ((), (), (), (), (), (), (), (), (), PhantomData<u8>, (), (), (), (), (), (), (), (), (), (), (), (), (), (), (), (), ));
-shredh::zoo_case!(c1043, 1043, 'a, ((), (), (), (), Option<Write<'a, D1, PanicHandler>>, (), (), (), (), (), (), (), (), ));
-shredh::zoo_case!(c1051, 1051, 'a, ((), (), (), (), (), Read<'a, N3, PanicHandler>, (), (), (), (), (), (), (), (), (), (), (), (), (), (), (), ));
-shredh::zoo_case!(c1059, 1059, 'a, ((), (), Read<'a, D3, DefaultProvider>, (), (), (), (), (), (), (), (), (), (), (), (), ));
-shredh::zoo_case!(c1067, 1067, 'a, ((), (), (), (), (), (), (), (), (), (), WriteExpect<'a, D0>, (), (), (), (), ));
-shredh::zoo_case!(c1075, 1075, 'a, ((), (), (), (), (), (), (), (), (), (), (), (), (), (), (), (), (), (), (), (), (), (), (), Write<'a, D3, PanicHandler>, (), (), ));
-shredh::zoo_case!(c1083, 1083, 'a, ((), (), (), Option<Read<'a, N1, PanicHandler>>, (), (), (), (), (), (), (), (), (), ));
-shredh::zoo_case!(c1091, 1091, 'a, ((), Write<'a, D2, DefaultProvider>, (), (), (), (), (), (), (), (), (), (), (), (), (), (), (), (), (), (), (), (), (), (), (), (), ));
-shredh::zoo_case!(c1099, 1099, 'a, ((), (), (), (), (), (), (), (), (), (), (), (), (), (), (), (), (), (), (), Option<Write<'a, N3>>, (), (), (), (), (), (), ));
-shredh::zoo_case!(c1107, 1107, 'a, (ReadExpect<'a, D3>, (), (), (), (), (), (), ));
-shredh::zoo_case!(c1115, 1115, 'a, ((), (), (), (), (), (), (), (), (), (), Write<'a, D0, Hc<D0>>, (), (), (), (), (), (), (), (), (), (), ));
-shredh::zoo_case!(c1123, 1123, 'a, ((), (), (), Option<Write<'a, N0, PanicHandler>>, (), ));
-shredh::zoo_case!(c1131, 1131, 'a, ((), (), (), WriteExpect<'a, D0>, (), (), (), (), (), (), (), (), (), (), (), (), (), (), (), (), (), ));
-shredh::zoo_case!(c1139, 1139, 'a, ((), (), (), (), (), (), (), (), Option<Write<'a, N3, PanicHandler>>, (), (), (), (), (), (), (), (), (), (), (), (), (), (), (), (), (), ));
-shredh::zoo_case!(c1147, 1147, 'a, ((), (), (), (), (), (), (), (), (), (), (), (), (), (), (), (), (), (), (), (), WriteExpect<'a, N1>, (), (), (), (), (), ));
-shredh::zoo_case!(c1155, 1155, 'a, ((), (), Read<'a, D1, DefaultProvider>, (), (), (), (), (), ));
-shredh::zoo_case!(c1163, 1163, 'a, (Option<Write<'a, D2, PanicHandler>>, (), (), (), (), (), (), (), (), (), (), (), (), (), (), (), (), (), (), (), (), (), (), (), (), (), ));
-shredh::zoo_case!(c1171, 1171, 'a, (Write<'a, D1>, ));
-shredh::zoo_case!(c1179, 1179, 'a, ((), (), (), (), Read<'a, N1, PanicHandler>, ));
-shredh::zoo_case!(c1187, 1187, 'a, ((), (), (), (), (), (), (), (), (), (), (), (), (), (), (), (), (), Write<'a, D2, PanicHandler>, (), (), (), (), (), (), (), (), ));
-shredh::zoo_case!(c1195, 1195, 'a, ((), (), (), (), Write<'a, D3>, (), (), ));
-shredh::zoo_case!(c1203, 1203, 'a, ((), (), (), (), (), (), (), (), (), (), (), (), (), (), (), (), (), (), (), (), (), (), (), (), (), Write<'a, D1, Hc<D1>>, ));
-shredh::zoo_case!(c1211, 1211, 'a, ((), (), (), (), (), (), (), (), (), (), (), Read<'a, D2>, (), ));
-shredh::zoo_case!(c1219, 1219, 'a, ((), (), (), (), (), (), (), (), (), (), (), (), (), (), (), Read<'a, D2>, (), (), (), (), (), (), (), (), (), (), ));
-shredh::zoo_case!(c1227, 1227, 'a, ((), (), (), (), (), (), (), (), (), (), (), (), (), (), (), (), (), (), Option<WriteExpect<'a, D2>>, (), (), (), (), (), (), (), ));
-shredh::zoo_case!(c1235, 1235, 'a, ((), (), (), (), (), (), (), (), PhantomData<&'a u8>, (), (), (), (), (), (), ));
-shredh::zoo_case!(c1243, 1243, 'a, ((), (), Read<'a, D0>, (), (), ));
-shredh::zoo_case!(c1251, 1251, 'a, ((), (), (), (), (), (), (), (), (), (), (), (), (), (), (), (), Write<'a, N0, PanicHandler>, (), (), (), (), (), (), (), (), (), ));
-shredh::zoo_case!(c1259, 1259, 'a, (WriteExpect<'a, N2>, (), (), (), (), (), ));
-shredh::zoo_case!(c1267, 1267, 'a, ((), (), (), (), (), (), (), WriteExpect<'a, D3>, (), (), (), (), (), (), (), ));
-shredh::zoo_case!(c1275, 1275, 'a, ((), (), (), (), (), (), (), (), (), (), (), (), (), (), (), (), (), (), (), (), (), (), (), PhantomData<(Write<'a, D1>,)>, (), (), ));
-shredh::zoo_case!(c1283, 1283, 'a, ((), (), (), (), (), (), (), (), (), (), (), (), (), (), (), Read<'a, D0, PanicHandler>, (), (), (), (), (), ));
-shredh::zoo_case!(c1291, 1291, 'a, ((), (), (), (), (), ReadExpect<'a, N1>, (), (), (), (), (), (), (), (), (), ));
-shredh::zoo_case!(c1299, 1299, 'a, ((), (), (), (), (), (), PhantomData<D0>, (), (), (), (), (), (), (), (), (), (), (), (), (), (), (), (), (), (), (), ));
-shredh::zoo_case!(c1307, 1307, 'a, ((), (), (), (), (), (), (), (), (), (), (), (), (), (), Read<'a, D0, Hc<D0>>, ));
-shredh::zoo_case!(c1315, 1315, 'a, (Write<'a, D1, DefaultProvider>, (), (), (), (), (), (), (), (), (), (), (), (), (), (), ));
-shredh::zoo_case!(c1323, 1323, 'a, ((), (), (), (), (), (), (), (), (), (), (), (), (), Write<'a, D3, Hc<D3>>, (), (), (), (), (), (), (), ));
-shredh::zoo_case!(c1331, 1331, 'a, ((), (), (), (), (), (), Read<'a, D2, PanicHandler>, (), (), (), ));
-shredh::zoo_case!(c1339, 1339, 'a, ((), (), (), (), (), (), (), Write<'a, D0, DefaultProvider>, ));
-shredh::zoo_case!(c1347, 1347, 'a, ((), Option<Write<'a, D1>>, (), (), (), (), (), (), (), (), (), (), (), ));
-shredh::zoo_case!(c1355, 1355, 'a, ((), (), (), (), (), (), (), Read<'a, D0>, (), (), (), (), (), (), (), (), (), (), (), (), (), (), (), (), (), (), ));
-shredh::zoo_case!(c1363, 1363, 'a, ((), (), (), (), (), (), (), (), (), (), (), (), (), Write<'a, D2>, (), ));
-shredh::zoo_case!(c1371, 1371, 'a, ((), (), (), (), (), (), (), (), (), (), (), (), (), (), (), Write<'a, D1, Hc<D1>>, (), (), (), (), (), (), (), (), (), (), ));
-shredh::zoo_case!(c1379, 1379, 'a, ((), ReadExpect<'a, N3>, (), (), (), ));
-shredh::zoo_case!(c1387, 1387, 'a, ((), (), (), (), Write<'a, D2, Hc<D2>>, (), (), ));
-shredh::zoo_case!(c1395, 1395, 'a, ((), PhantomData<dyn Send>, (), (), (), (), (), ));
-shredh::zoo_case!(c1403, 1403, 'a, (Write<'a, D1>, ));
-shredh::zoo_case!(c1411, 1411, 'a, (Write<'a, D3>, Read<'a, D0>, Write<'a, D2, DefaultProvider>, ));
-shredh::zoo_case!(c1419, 1419, 'a, (Read<'a, D0, DefaultProvider>, Write<'a, D4>, Read<'a, D5, DefaultProvider>, Write<'a, D1>, Read<'a, D2, DefaultProvider>, ));
-shredh::zoo_case!(c1427, 1427, 'a, (Read<'a, D5, DefaultProvider>, Write<'a, D6>, Read<'a, D2>, Write<'a, D3>, Read<'a, D1, DefaultProvider>, Write<'a, D7>, Read<'a, D4, DefaultProvider>, ));
-shredh::zoo_case!(c1435, 1435, 'a, (Read<'a, D13, DefaultProvider>, Write<'a, D20, DefaultProvider>, Read<'a, D10>, Write<'a, D23, DefaultProvider>, Read<'a, D21, DefaultProvider>, Write<'a, D14>, Read<'a, D18, DefaultProvider>, Write<'a, D24, DefaultProvider>, Read<'a, D11, DefaultProvider>, ));
-shredh::zoo_case!(c1443, 1443, 'a, (Read<'a, D17, DefaultProvider>, Write<'a, D23, DefaultProvider>, Read<'a, D14, DefaultProvider>, Write<'a, D24>, Read<'a, D18>, Write<'a, D6, DefaultProvider>, Read<'a, D8>, Write<'a, D9, DefaultProvider>, Read<'a, D0>, Write<'a, D21, DefaultProvider>, Read<'a, D5, DefaultProvider>, ));
-shredh::zoo_case!(c1451, 1451, 'a, (Write<'a, D20>, Read<'a, D19>, Write<'a, D22>, Read<'a, D11>, Write<'a, D14, DefaultProvider>, Read<'a, D7, DefaultProvider>, Write<'a, D18>, Read<'a, D3, DefaultProvider>, Write<'a, D12>, Read<'a, D9, DefaultProvider>, Write<'a, D25>, Read<'a, D16, DefaultProvider>, Write<'a, D5, DefaultProvider>, ));
-shredh::zoo_case!(c1459, 1459, 'a, (Read<'a, D17, DefaultProvider>, Write<'a, D9, DefaultProvider>, Read<'a, D21, DefaultProvider>, Write<'a, D20, DefaultProvider>, Read<'a, D4, DefaultProvider>, Write<'a, D12>, Read<'a, D22, DefaultProvider>, Write<'a, D16>, Read<'a, D5, DefaultProvider>, Write<'a, D1>, Read<'a, D6>, Write<'a, D18>, Read<'a, D15>, Write<'a, D3, DefaultProvider>, Read<'a, D13>, ));
-shredh::zoo_case!(c1467, 1467, 'a, (Write<'a, D22>, Read<'a, D18>, Write<'a, D23, DefaultProvider>, Read<'a, D5>, Write<'a, D24>, Read<'a, D8, DefaultProvider>, Write<'a, D12, DefaultProvider>, Read<'a, D3, DefaultProvider>, Write<'a, D10>, Read<'a, D21>, Write<'a, D17, DefaultProvider>, Read<'a, D11>, Write<'a, D1>, Read<'a, D6>, Write<'a, D19>, Read<'a, D9, DefaultProvider>, Write<'a, D25, DefaultProvider>, ));
-shredh::zoo_case!(c1475, 1475, 'a, (Write<'a, D21, DefaultProvider>, Read<'a, D25>, Write<'a, D3>, Read<'a, D15>, Write<'a, D18>, Read<'a, D19, DefaultProvider>, Write<'a, D17, DefaultProvider>, Read<'a, D13>, Write<'a, D6, DefaultProvider>, Read<'a, D22, DefaultProvider>, Write<'a, D5, DefaultProvider>, Read<'a, D16>, Write<'a, D4>, Read<'a, D11, DefaultProvider>, Write<'a, D14>, Read<'a, D8>, Write<'a, D24, DefaultProvider>, Read<'a, D23, DefaultProvider>, Write<'a, D2, DefaultProvider>, ));
-shredh::zoo_case!(c1483, 1483, 'a, (Read<'a, D6, DefaultProvider>, Write<'a, D11>, Read<'a, D25>, Write<'a, D21, DefaultProvider>, Read<'a, D24>, Write<'a, D2>, Read<'a, D1, DefaultProvider>, Write<'a, D23, DefaultProvider>, Read<'a, D19, DefaultProvider>, Write<'a, D14>, Read<'a, D17>, Write<'a, D5>, Read<'a, D0, DefaultProvider>, Write<'a, D7, DefaultProvider>, Read<'a, D9>, Write<'a, D10>, Read<'a, D3, DefaultProvider>, Write<'a, D12>, Read<'a, D8, DefaultProvider>, Write<'a, D15>, Read<'a, D13>, ));
-shredh::zoo_case!(c1491, 1491, 'a, (Read<'a, D9, DefaultProvider>, Write<'a, D23, DefaultProvider>, Read<'a, D7, DefaultProvider>, Write<'a, D8, DefaultProvider>, Read<'a, D1, DefaultProvider>, Write<'a, D21, DefaultProvider>, Read<'a, D3, DefaultProvider>, Write<'a, D15>, Read<'a, D11>, Write<'a, D17>, Read<'a, D5>, Write<'a, D0>, Read<'a, D2>, Write<'a, D25>, Read<'a, D16, DefaultProvider>, Write<'a, D10, DefaultProvider>, Read<'a, D24, DefaultProvider>, Write<'a, D19>, Read<'a, D13>, Write<'a, D14>, Read<'a, D18>, Write<'a, D12>, Read<'a, D20, DefaultProvider>, ));
-shredh::zoo_case!(c1499, 1499, 'a, (Write<'a, D20>, Read<'a, D5, DefaultProvider>, Write<'a, D13, DefaultProvider>, Read<'a, D24, DefaultProvider>, Write<'a, D18>, Read<'a, D25, DefaultProvider>, Write<'a, D16, DefaultProvider>, Read<'a, D1, DefaultProvider>, Write<'a, D6>, Read<'a, D23>, Write<'a, D14, DefaultProvider>, Read<'a, D12>, Write<'a, D22>, Read<'a, D15>, Write<'a, D11>, Read<'a, D2, DefaultProvider>, Write<'a, D19, DefaultProvider>, Read<'a, D0>, Write<'a, D10>, Read<'a, D9>, Write<'a, D3, DefaultProvider>, Read<'a, D7>, Write<'a, D17>, Read<'a, D8>, Write<'a, D21, DefaultProvider>, ));
-#[derive(SystemData)] pub struct Z1507_0<'a, U0: SystemData<'a>> { f0: U0, f1: Write<'a, D3, DefaultProvider>, f2: Read<'a, D2>, }
-shredh::zoo_case!(c1507, 1507, 'a, Z1507_0<'a, Read<'a, D0, Hc<D4>>>);
-#[derive(SystemData)] pub struct Z1515_0<'a, U0, U1> where U0: SystemData<'a>, U1: SystemData<'a> { f0: U0, f1: U1, f2: Read<'a, D1>, }
-shredh::zoo_case!(c1515, 1515, 'a, Z1515_0<'a, Read<'a, D1>, (Write<'a, D0, DefaultProvider>, Read<'a, N3, PanicHandler>, )>);
-#[derive(SystemData)] pub struct Z1523_0<'a, U0: SystemData<'a>, T0: Resource + ZRes, T1: Resource + Default>(pub U0, pub Write<'a, T0>, pub Read<'a, T1>);
-shredh::zoo_case!(c1523, 1523, 'a, Z1523_0<'a, Write<'a, D2, DefaultProvider>, D3, D1>);
-#[derive(SystemData)] pub struct Z1531_0<'a, T0, U0: SystemData<'a>, T1>(pub Read<'a, T0, DefaultProvider>, pub U0, pub Read<'a, T1, DefaultProvider>) where T0: Debug + Resource + Default, T1: Debug + Resource + Default;
-shredh::zoo_case!(c1531, 1531, 'a, Z1531_0<'a, D3, Read<'a, D2, Hc<D1>>, D3>);
-#[derive(SystemData)] pub struct Z1539_1<'a> { f0: Write<'a, D2, DefaultProvider>, f1: Read<'a, D1, PanicHandler>, }
-#[derive(SystemData)] pub struct Z1539_0<'a, U0: SystemData<'a>, U1: SystemData<'a>>(pub U0, pub Write<'a, D0, DefaultProvider>, pub U1);
-shredh::zoo_case!(c1539, 1539, 'a, Z1539_0<'a, Read<'a, D3>, Z1539_1<'a>>);
-#[derive(SystemData)] pub struct Z1547_0<'a, T0, T1, T2>(pub Option<Read<'a, D12, PanicHandler>>, pub Option<WriteExpect<'a, N18>>, pub Read<'a, D20, Hc<D17>>, pub Write<'a, T0, Hc<D13>>, pub (), pub PhantomData<T0>, pub Read<'a, T1, DefaultProvider>, pub Write<'a, D0>, pub Read<'a, T2, PanicHandler>, pub WriteExpect<'a, N5>, pub Option<Read<'a, D4, PanicHandler>>, pub Option<Write<'a, N16>>, pub Read<'a, D25, Hc<D21>>, pub Write<'a, D21, Hc<D2>>, pub (), pub PhantomData<T0>, pub Read<'a, D10>) where T0: Resource + ZRes, T1: Resource + ZRes, T2: Resource;
-shredh::zoo_case!(c1547, 1547, 'a, Z1547_0<'a, D17, D6, D22>);
-shredh::zoo_case!(c1555, 1555, 'a, (Option<Read<'a, D3, PanicHandler>>, Option<WriteExpect<'a, N2>>, Read<'a, D25, Hc<D16>>, Write<'a, D16, Hc<D22>>, (), PhantomData<(Write<'a, D1>,)>, Read<'a, D9, DefaultProvider>, Write<'a, D18, DefaultProvider>, Read<'a, D8, PanicHandler>, WriteExpect<'a, N20>, Option<Read<'a, N1, PanicHandler>>, Option<Write<'a, N13, PanicHandler>>, Read<'a, D0, Hc<D5>>, Write<'a, D5, Hc<D4>>, (), PhantomData<dyn Send>, Read<'a, D14, DefaultProvider>, Write<'a, D24, DefaultProvider>, ReadExpect<'a, D15>, Write<'a, N7, PanicHandler>, Option<ReadExpect<'a, N23>>, Option<WriteExpect<'a, N21>>, Read<'a, D19, Hc<D3>>, ));
-shredh::zoo_case!(c1563, 1563, 'a, (Write<'a, D6, Hc<D24>>, (), PhantomData<fn() -> N2>, Read<'a, D14, DefaultProvider>, Write<'a, D8>, Read<'a, N19, PanicHandler>, Write<'a, D9, PanicHandler>, Option<Read<'a, N7, PanicHandler>>, Option<Write<'a, N3, PanicHandler>>, Read<'a, D2, Hc<D23>>, Write<'a, D23, Hc<D21>>, (), ));
-#[derive(SystemData)] pub struct Z1571_0<'a> { pub f0: Read<'a, D4, Hc<D3>>, pub f1: Write<'a, D3, Hc<D1>>, pub f2: (), pub f3: PhantomData<fn() -> N2>, pub f4: Read<'a, D5, DefaultProvider>, }
-shredh::zoo_case!(c1571, 1571, 'a, Z1571_0<'a>);
-shredh::zoo_case!(c1579, 1579, 'a, (Write<'a, D7, Hc<D23>>, (), PhantomData<dyn Send>, Read<'a, D19>, Write<'a, D25, DefaultProvider>, ReadExpect<'a, D20>, Write<'a, D1, PanicHandler>, Option<Read<'a, N22>>, Option<WriteExpect<'a, D16>>, Read<'a, D15, Hc<D2>>, Write<'a, D2, Hc<D0>>, (), PhantomData<(Write<'a, D1>,)>, Read<'a, D10, DefaultProvider>, Write<'a, D5>, ReadExpect<'a, D17>, Write<'a, N12, PanicHandler>, Option<ReadExpect<'a, N18>>, Option<Write<'a, D4>>, Read<'a, D6, Hc<D7>>, ));
-#[derive(SystemData)] pub struct Z1587_0<'a, T0: Resource, T1: Debug + Resource, T2: Resource + ZRes> { f0: (), f1: PhantomData<str>, f2: Read<'a, T0>, f3: Write<'a, T1, DefaultProvider>, f4: Read<'a, T2, PanicHandler>, f5: WriteExpect<'a, N21>, f6: Option<Read<'a, D22>>, f7: Option<Write<'a, N8, PanicHandler>>, f8: Read<'a, D3, Hc<D16>>, f9: Write<'a, D16, Hc<D23>>, f10: (), f11: PhantomData<D0>, f12: Read<'a, D2>, f13: Write<'a, D13>, f14: Read<'a, D24, PanicHandler>, f15: WriteExpect<'a, D10>, }
-shredh::zoo_case!(c1587, 1587, 'a, Z1587_0<'a, D11, D0, N19>);
-#[derive(SystemData)] pub struct Z1595_1<'a, T0, T1: Debug + Resource>(pub Write<'a, N1, PanicHandler>, pub Option<WriteExpect<'a, T0>>, pub Read<'a, T1, Hc<D3>>) where T0: Resource + ZRes;
-#[derive(SystemData)] pub struct Z1595_0<'a, U0>(pub WriteExpect<'a, D2>, pub U0, pub Read<'a, D3, PanicHandler>) where U0: SystemData<'a>;
-shredh::zoo_case!(c1595, 1595, 'a, Z1595_0<'a, (Z1595_1<'a, D2, D2>, )>);
-#[derive(SystemData)] pub struct Z1603_1<'a>(pub (Option<ReadExpect<'a, N0>>, ), pub Read<'a, D2, Hc<D1>>);
-#[derive(SystemData)] pub struct Z1603_0<'a, T0, T1>(WriteExpect<'a, T0>, (Option<WriteExpect<'a, N0>>, ), Z1603_1<'a>, Option<ReadExpect<'a, T1>>) where T0: Debug + Resource, T1: Resource;
-shredh::zoo_case!(c1603, 1603, 'a, Z1603_0<'a, D1, N0>);
-#[derive(SystemData)] pub struct Z1611_1<'a, T0: Resource, T1: Resource + ZRes, T2: Debug + Resource + for<'b> Hrtb<'b>> { f0: Write<'a, T0, PanicHandler>, f1: Write<'a, T1, DefaultProvider>, f2: Write<'a, T2>, f3: Write<'a, D2, PanicHandler>, }
-#[derive(SystemData)] pub struct Z1611_0<'a> { pub f0: Z1611_1<'a, D1, D0, D1>, pub f1: Write<'a, D2, Hc<D1>>, pub f2: Read<'a, D1>, }
-shredh::zoo_case!(c1611, 1611, 'a, Z1611_0<'a>);
-#[derive(SystemData)] pub struct Z1619_1<'a> { pub f0: Option<Write<'a, N0>>, }
-#[derive(SystemData)] pub struct Z1619_2<'a> { pub f0: Read<'a, D1>, }
-#[derive(SystemData)] pub struct Z1619_0<'a>(pub (Z1619_1<'a>, Option<Write<'a, N2, PanicHandler>>, (Option<ReadExpect<'a, N0>>, ), Z1619_2<'a>, ));
-shredh::zoo_case!(c1619, 1619, 'a, Z1619_0<'a>);
-#[derive(SystemData)] pub struct Z1627_1<'a> { pub f0: Option<Read<'a, D3>>, pub f1: Read<'a, D1, Hc<D3>>, pub f2: Write<'a, D3, PanicHandler>, }
-#[derive(SystemData)] pub struct Z1627_0<'a>(pub WriteExpect<'a, D3>, pub ((Write<'a, D1, DefaultProvider>, ), ), pub (Z1627_1<'a>, ));
-shredh::zoo_case!(c1627, 1627, 'a, Z1627_0<'a>);
-#[derive(SystemData)] pub struct Z1635_1<'a, T0: Debug + Resource + for<'b> Hrtb<'b>, T1: Debug + Resource>(pub Write<'a, T0, PanicHandler>, pub Option<Write<'a, T1, PanicHandler>>, pub ());
-#[derive(SystemData)] pub struct Z1635_2<'a> { f0: ReadExpect<'a, D2>, f1: Write<'a, D3>, }
-#[derive(SystemData)] pub struct Z1635_3<'a, T0: Resource + ZRes, T1: Debug + Resource> { pub f0: Read<'a, T0, DefaultProvider>, pub f1: Option<Write<'a, T1, PanicHandler>>, pub f2: Write<'a, D1, Hc<D2>>, }
-#[derive(SystemData)] pub struct Z1635_0<'a, T0: Resource>(pub Z1635_1<'a, D3, D0>, pub Z1635_2<'a>, pub Read<'a, T0, Hc<D1>>, pub Z1635_3<'a, D0, D2>);
-shredh::zoo_case!(c1635, 1635, 'a, Z1635_0<'a, D3>);
-#[derive(SystemData)] pub struct Z1643_1<'a> { pub f0: PhantomData<[u32]>, pub f1: Option<Write<'a, D0>>, pub f2: Read<'a, D0>, }
-#[derive(SystemData)] pub struct Z1643_0<'a, T0, T1>(Option<Read<'a, T0>>, Z1643_1<'a>, ((), (), Read<'a, D3, DefaultProvider>, ), WriteExpect<'a, T1>) where T0: Resource, T1: Resource;
-#[derive(SystemData)] pub struct Z1643_2<'a, 'x, T0: Debug + Resource>(PhantomData<&'x i64>, Read<'a, T0>, PhantomData<T0>);
-#[derive(SystemData)] pub struct Z1643_4<'a, 'x>(PhantomData<&'x i64>, WriteExpect<'a, D0>, PhantomData<u8>, ());
-#[derive(SystemData)] pub struct Z1643_3<'a>(pub Z1643_4<'a, 'static>);
-shredh::zoo_case!(c1643, 1643, 'a, (Z1643_0<'a, D1, D1>, ((Write<'a, D0, DefaultProvider>, PhantomData<u8>, ), Z1643_2<'a, 'static, D0>, ), Z1643_3<'a>, Option<ReadExpect<'a, D1>>, ));
-#[derive(SystemData)] pub struct Z1651_1<'a, T0, T1: Resource + Default> where T0: Debug + Resource { f0: Read<'a, T0, Hc<D2>>, f1: (), f2: Read<'a, T1, DefaultProvider>, }
-#[derive(SystemData)] pub struct Z1651_2<'a, T0, T1> where T0: Resource, T1: Resource + ZRes { f0: Read<'a, T0, DefaultProvider>, f1: Write<'a, T1, DefaultProvider>, }
-#[derive(SystemData)] pub struct Z1651_0<'a> { pub f0: Write<'a, D2>, pub f1: Read<'a, D2, Hc<D0>>, pub f2: Z1651_1<'a, D0, D2>, pub f3: Z1651_2<'a, D2, D2>, }
-#[derive(SystemData)] pub struct Z1651_3<'a, T0: Debug + Resource + for<'b> Hrtb<'b> + Default, T1: Debug + Resource, T2>(pub Read<'a, T0, DefaultProvider>, pub Option<ReadExpect<'a, T1>>, pub Read<'a, T2, Hc<D0>>) where T2: Debug + Resource;
-shredh::zoo_case!(c1651, 1651, 'a, (Option<Read<'a, D0, PanicHandler>>, Read<'a, D0, DefaultProvider>, Z1651_0<'a>, ((), ((), ), Z1651_3<'a, D0, D0, D2>, ), ));
-#[derive(SystemData)] pub struct Z1659_1<'a> { f0: Write<'a, D3, Hc<D2>>, }
-#[derive(SystemData)] pub struct Z1659_0<'a>(Z1659_1<'a>, Read<'a, D3, DefaultProvider>);
-shredh::zoo_case!(c1659, 1659, 'a, Z1659_0<'a>);
-shredh::zoo_case!(c1667, 1667, 'a, ((Option<Read<'a, D2>>, ), Read<'a, D2>, (Option<Write<'a, D0, PanicHandler>>, ), ));
-#[derive(SystemData)] pub struct Z1675_1<'a, 'x> { pub f0: PhantomData<&'x i64>, pub f1: Option<Read<'a, D2, PanicHandler>>, pub f2: Write<'a, D0>, pub f3: (), }
-#[derive(SystemData)] pub struct Z1675_2<'a>(pub Read<'a, D0, PanicHandler>, pub Option<Read<'a, D2>>);
-#[derive(SystemData)] pub struct Z1675_0<'a, T0: Debug + Resource> { f0: Z1675_1<'a, 'a>, f1: Z1675_2<'a>, f2: Read<'a, T0, Hc<D2>>, }
-shredh::zoo_case!(c1675, 1675, 'a, Z1675_0<'a, D0>);
-#[derive(SystemData)] pub struct Z1683_0<'a> { f0: Read<'a, D2, PanicHandler>, f1: (Option<Read<'a, D3, PanicHandler>>, PhantomData<fn() -> N2>, (), Write<'a, D0, Hc<D2>>, ), }
-#[derive(SystemData)] pub struct Z1683_1<'a, U0: SystemData<'a>> { f0: Option<ReadExpect<'a, D0>>, f1: U0, }
-#[derive(SystemData)] pub struct Z1683_2<'a> { pub f0: Read<'a, D3, Hc<D0>>, pub f1: (), pub f2: Write<'a, D3>, }
-#[derive(SystemData)] pub struct Z1683_3<'a> { pub f0: Write<'a, D2, Hc<D3>>, pub f1: ReadExpect<'a, D0>, }
-shredh::zoo_case!(c1683, 1683, 'a, (Z1683_0<'a>, Write<'a, D3, DefaultProvider>, (Z1683_1<'a, Option<WriteExpect<'a, D0>>>, Z1683_2<'a>, Z1683_3<'a>, ), ));
-#[derive(SystemData)] pub struct Z1691_0<'a>(Option<Write<'a, N0, PanicHandler>>, Write<'a, D1>);
-shredh::zoo_case!(c1691, 1691, 'a, (Z1691_0<'a>, ));
-#[derive(SystemData)] pub struct Z1699_0<'a, U0, U1>(pub Write<'a, D0, PanicHandler>, pub PhantomData<dyn Send>, pub U0, pub U1) where U0: SystemData<'a>, U1: SystemData<'a>;
-shredh::zoo_case!(c1699, 1699, 'a, (((Option<ReadExpect<'a, D0>>, ), ), Read<'a, D1, Hc<D0>>, (Z1699_0<'a, Option<Read<'a, D3, PanicHandler>>, Option<Read<'a, D1, PanicHandler>>>, (), (WriteExpect<'a, D3>, Read<'a, D1, Hc<D3>>, (), Write<'a, D3, Hc<D0>>, ), (Read<'a, D3, DefaultProvider>, PhantomData<[u32]>, ), ), ));
-#[derive(SystemData)] pub struct Z1707_1<'a, T0> where T0: Debug + Resource { f0: Read<'a, T0>, }
-#[derive(SystemData)] pub struct Z1707_2<'a>(Read<'a, D0, DefaultProvider>);
-#[derive(SystemData)] pub struct Z1707_4<'a> { f0: PhantomData<&'a u8>, }
-#[derive(SystemData)] pub struct Z1707_5<'a, T0>(Option<ReadExpect<'a, T0>>) where T0: Resource;
-#[derive(SystemData)] pub struct Z1707_3<'a> { f0: Z1707_4<'a>, f1: Z1707_5<'a, D2>, }
-#[derive(SystemData)] pub struct Z1707_0<'a, U0: SystemData<'a>> { pub f0: Z1707_1<'a, D2>, pub f1: U0, pub f2: Z1707_3<'a>, }
-shredh::zoo_case!(c1707, 1707, 'a, Z1707_0<'a, (Z1707_2<'a>, )>);
-#[derive(SystemData)] pub struct Z1715_1<'a, T0, T1>(ReadExpect<'a, T0>, Read<'a, T1>) where T0: Resource, T1: Debug + Resource + for<'b> Hrtb<'b>;
-#[derive(SystemData)] pub struct Z1715_2<'a>(PhantomData<&'a u8>, PhantomData<u8>);
-#[derive(SystemData)] pub struct Z1715_0<'a>(Z1715_1<'a, D2, D0>, Z1715_2<'a>);
-shredh::zoo_case!(c1715, 1715, 'a, Z1715_0<'a>);
-#[derive(SystemData)] pub struct Z1723_1<'a>(pub Option<WriteExpect<'a, D2>>);
-#[derive(SystemData)] pub struct Z1723_2<'a, T0: Resource>(pub Option<Read<'a, T0, PanicHandler>>);
-#[derive(SystemData)] pub struct Z1723_0<'a, U0> where U0: SystemData<'a> { pub f0: U0, pub f1: Z1723_2<'a, D0>, }
-shredh::zoo_case!(c1723, 1723, 'a, (Z1723_0<'a, Z1723_1<'a>>, Read<'a, D2>, ));
-#[derive(SystemData)] pub struct Z1731_0<'a, U0, U1, U2> where U0: SystemData<'a>, U1: SystemData<'a>, U2: SystemData<'a> { pub f0: U0, pub f1: Read<'a, D1>, pub f2: U1, pub f3: U2, }
-#[derive(SystemData)] pub struct Z1731_1<'a, T0, T1>(Read<'a, T0>, Read<'a, T1, PanicHandler>, PhantomData<dyn Send>) where T0: Debug + Resource + Default, T1: Resource;
-#[derive(SystemData)] pub struct Z1731_2<'a> { pub f0: (Read<'a, D1, DefaultProvider>, (), (), Write<'a, D2>, ), }
-shredh::zoo_case!(c1731, 1731, 'a, ((Z1731_0<'a, Read<'a, D1, Hc<D2>>, Read<'a, D2, PanicHandler>, Read<'a, D2>>, Z1731_1<'a, D1, D1>, ), Z1731_2<'a>, ReadExpect<'a, D2>, ));
-#[derive(SystemData)] pub struct Z1739_1<'a, T0: Resource>(pub Read<'a, T0, Hc<D0>>);
-#[derive(SystemData)] pub struct Z1739_2<'a> { f0: Read<'a, D4>, f1: Read<'a, D3, Hc<D1>>, f2: Write<'a, D0>, f3: ReadExpect<'a, D1>, }
-#[derive(SystemData)] pub struct Z1739_3<'a>(pub Read<'a, D1, Hc<D3>>);
-#[derive(SystemData)] pub struct Z1739_0<'a, U0: SystemData<'a>, U1: SystemData<'a>, U2>(Z1739_1<'a, D3>, U0, U1, U2) where U2: SystemData<'a>;
-shredh::zoo_case!(c1739, 1739, 'a, Z1739_0<'a, Z1739_2<'a>, ReadExpect<'a, D3>, Z1739_3<'a>>);
-shredh::zoo_case!(c1747, 1747, 'a, (((), ), ));
-#[derive(SystemData)] pub struct Z1755_1<'a, T0, T1>(pub PhantomData<D0>, pub Write<'a, T0, Hc<D3>>, pub PhantomData<T0>, pub ReadExpect<'a, T1>) where T0: Resource + ZRes, T1: Debug + Resource;
-#[derive(SystemData)] pub struct Z1755_2<'a>(Read<'a, D3, PanicHandler>, Option<WriteExpect<'a, D0>>, Write<'a, D1, Hc<D0>>);
-#[derive(SystemData)] pub struct Z1755_0<'a>(pub (Z1755_1<'a, D1, D1>, (Read<'a, D1, DefaultProvider>, Read<'a, D0>, Read<'a, D1, Hc<D0>>, ), Z1755_2<'a>, ));
-shredh::zoo_case!(c1755, 1755, 'a, Z1755_0<'a>);
-#[derive(SystemData)] pub struct Z1763_1<'a, T0: Debug + Resource + for<'b> Hrtb<'b>, T1: Resource + ZRes> { pub f0: Option<Read<'a, T0, PanicHandler>>, pub f1: Write<'a, T1, Hc<D3>>, }
-#[derive(SystemData)] pub struct Z1763_2<'a> { f0: Write<'a, D0, Hc<D3>>, f1: Read<'a, D0, Hc<D3>>, f2: PhantomData<[u32]>, }
-#[derive(SystemData)] pub struct Z1763_0<'a, U0, U1> where U0: SystemData<'a>, U1: SystemData<'a> { pub f0: ((Write<'a, D3, Hc<D0>>, Read<'a, D0, Hc<D3>>, Read<'a, D0, Hc<D3>>, ), ), pub f1: U0, pub f2: (Z1763_1<'a, D3, D0>, ((), Option<WriteExpect<'a, D3>>, PhantomData<(Write<'a, D1>,)>, Read<'a, D0, Hc<D3>>, ), Z1763_2<'a>, ), pub f3: U1, }
-shredh::zoo_case!(c1763, 1763, 'a, Z1763_0<'a, Option<WriteExpect<'a, D3>>, Write<'a, D3>>);
-#[derive(SystemData)] pub struct Z1771_2<'a, 'x, T0: Resource> { pub f0: Write<'a, T0, PanicHandler>, pub f1: PhantomData<&'x i64>, }
-#[derive(SystemData)] pub struct Z1771_1<'a>(pub Z1771_2<'a, 'a, D0>, pub ());
-#[derive(SystemData)] pub struct Z1771_3<'a> { f0: Write<'a, D0, DefaultProvider>, f1: (), f2: PhantomData<fn() -> N2>, f3: (), }
-#[derive(SystemData)] pub struct Z1771_4<'a, T0: Resource + ZRes + Default> { f0: Write<'a, T0, DefaultProvider>, }
-#[derive(SystemData)] pub struct Z1771_0<'a>(pub Z1771_1<'a>, pub (), pub (Z1771_3<'a>, (Write<'a, D0>, Option<Write<'a, D0>>, (), ), Z1771_4<'a, D1>, ), pub PhantomData<[u32]>);
-shredh::zoo_case!(c1771, 1771, 'a, Z1771_0<'a>);
-#[derive(SystemData)] pub struct Z1779_1<'a, U0, U1> where U0: SystemData<'a>, U1: SystemData<'a> { pub f0: Option<ReadExpect<'a, N1>>, pub f1: U0, pub f2: Option<ReadExpect<'a, D2>>, pub f3: U1, }
-#[derive(SystemData)] pub struct Z1779_0<'a>(pub Write<'a, D2>, pub Z1779_1<'a, Write<'a, D2>, Write<'a, D0>>);
-shredh::zoo_case!(c1779, 1779, 'a, Z1779_0<'a>);
-#[derive(SystemData)] pub struct Z1787_0<'a>(Read<'a, N0, PanicHandler>, WriteExpect<'a, N0>);
-shredh::zoo_case!(c1787, 1787, 'a, ((Option<WriteExpect<'a, D1>>, (), ), ((), (), ), Option<Write<'a, D1>>, Z1787_0<'a>, ));
-#[derive(SystemData)] pub struct Z1795_1<'a>((Write<'a, D3, DefaultProvider>, ), Option<Write<'a, D2, PanicHandler>>, (Option<WriteExpect<'a, D2>>, Read<'a, D0, Hc<D3>>, Read<'a, D3, Hc<D0>>, ));
-#[derive(SystemData)] pub struct Z1795_2<'a>((), Read<'a, D2, DefaultProvider>);
-#[derive(SystemData)] pub struct Z1795_3<'a, T0> where T0: Resource { f0: Option<WriteExpect<'a, T0>>, }
-#[derive(SystemData)] pub struct Z1795_4<'a, 'x> { f0: Read<'a, D0, Hc<D3>>, f1: PhantomData<&'x i64>, }
-#[derive(SystemData)] pub struct Z1795_6<'a>(Write<'a, D3>);
-#[derive(SystemData)] pub struct Z1795_5<'a> { pub f0: (Read<'a, D3>, Write<'a, D2>, Option<WriteExpect<'a, D0>>, ), pub f1: (), pub f2: (Option<Write<'a, D0>>, ), pub f3: Z1795_6<'a>, }
-#[derive(SystemData)] pub struct Z1795_7<'a> { pub f0: Option<Read<'a, D2>>, pub f1: Read<'a, D0, Hc<D2>>, }
-#[derive(SystemData)] pub struct Z1795_0<'a>(pub Z1795_1<'a>, pub (Z1795_2<'a>, Read<'a, D2, Hc<D3>>, Z1795_3<'a, D2>, Z1795_4<'a, 'a>, ), pub Z1795_5<'a>, pub (Z1795_7<'a>, Option<Write<'a, D2>>, ));
-shredh::zoo_case!(c1795, 1795, 'a, Z1795_0<'a>);
-#[derive(SystemData)] pub struct Z1803_1<'a, T0: Debug + Resource + for<'b> Hrtb<'b> + Default, U0: SystemData<'a>, U1> where U1: SystemData<'a> { f0: Write<'a, T0, DefaultProvider>, f1: U0, f2: U1, }
-#[derive(SystemData)] pub struct Z1803_2<'a>(Read<'a, D3, Hc<D1>>, Read<'a, D3, PanicHandler>);
-#[derive(SystemData)] pub struct Z1803_0<'a, U0> where U0: SystemData<'a> { pub f0: U0, pub f1: (Z1803_2<'a>, (ReadExpect<'a, D3>, PhantomData<D0>, Read<'a, D3, DefaultProvider>, ), ), }
-shredh::zoo_case!(c1803, 1803, 'a, Z1803_0<'a, (Z1803_1<'a, D1, (), Read<'a, D1, Hc<D3>>>, (Option<Read<'a, D3>>, Read<'a, D3, PanicHandler>, ), (Read<'a, D3, PanicHandler>, ), ((), ), )>);
-#[derive(SystemData)] pub struct Z1811_1<'a, T0, T1: Debug + Resource, T2> where T0: Debug + Resource + for<'b> Hrtb<'b>, T2: Resource + ZRes { pub f0: Write<'a, D1>, pub f1: Read<'a, T0, Hc<D1>>, pub f2: Write<'a, T1>, pub f3: Option<Read<'a, T2>>, }
-#[derive(SystemData)] pub struct Z1811_2<'a, T0: Resource>(pub Read<'a, T0>);
-#[derive(SystemData)] pub struct Z1811_4<'a, U0, T0: Resource + ZRes> where U0: SystemData<'a> { pub f0: U0, pub f1: Write<'a, T0, PanicHandler>, pub f2: Read<'a, D1>, }
-#[derive(SystemData)] pub struct Z1811_3<'a> { pub f0: ((), Option<ReadExpect<'a, D1>>, Write<'a, D0, Hc<D1>>, ), pub f1: Z1811_4<'a, PhantomData<fn() -> N2>, D0>, pub f2: (Write<'a, D1, DefaultProvider>, Write<'a, D1>, Option<ReadExpect<'a, D0>>, Write<'a, D1, Hc<D0>>, ), }
-#[derive(SystemData)] pub struct Z1811_0<'a, U0: SystemData<'a>, U1: SystemData<'a>> { f0: U0, f1: U1, f2: Z1811_3<'a>, }
-shredh::zoo_case!(c1811, 1811, 'a, Z1811_0<'a, Read<'a, D1>, (Z1811_1<'a, D0, D1, D0>, Z1811_2<'a, D1>, (Write<'a, D1>, Option<Write<'a, D0, PanicHandler>>, (), Option<Read<'a, D0, PanicHandler>>, ), Write<'a, D0, PanicHandler>, )>);
-#[derive(SystemData)] pub struct Z1819_1<'a, T0, T1, T2>(Option<WriteExpect<'a, T0>>, Read<'a, T1, PanicHandler>, Read<'a, T2>, Read<'a, D0, DefaultProvider>) where T0: Resource + ZRes, T1: Resource + ZRes, T2: Debug + Resource + for<'b> Hrtb<'b>;
-#[derive(SystemData)] pub struct Z1819_2<'a, T0: Resource, T1: Resource + Default, T2: Debug + Resource> { pub f0: Option<Write<'a, T0, PanicHandler>>, pub f1: Read<'a, T1, DefaultProvider>, pub f2: Read<'a, T2, Hc<D3>>, pub f3: Write<'a, D0, DefaultProvider>, }
-#[derive(SystemData)] pub struct Z1819_3<'a> { f0: PhantomData<(Write<'a, D1>,)>, }
-#[derive(SystemData)] pub struct Z1819_4<'a, 'x, T0: Resource>(pub PhantomData<&'x i64>, pub Read<'a, D4, Hc<D3>>, pub Read<'a, T0, Hc<D0>>, pub Read<'a, D4, DefaultProvider>);
-#[derive(SystemData)] pub struct Z1819_0<'a> { f0: Z1819_1<'a, D2, D2, D3>, f1: Z1819_2<'a, D0, D4, D2>, f2: Z1819_3<'a>, f3: Z1819_4<'a, 'static, D3>, }
-shredh::zoo_case!(c1819, 1819, 'a, (Option<Read<'a, D2, PanicHandler>>, Z1819_0<'a>, ));
-#[derive(SystemData)] pub struct Z1827_1<'a> { f0: ReadExpect<'a, D0>, f1: Read<'a, D1>, f2: Read<'a, D0, DefaultProvider>, f3: PhantomData<[u32]>, }
-#[derive(SystemData)] pub struct Z1827_0<'a, U0: SystemData<'a>>(PhantomData<(Write<'a, D1>,)>, U0);
-#[derive(SystemData)] pub struct Z1827_2<'a, U0>(PhantomData<[u32]>, Option<Write<'a, N3, PanicHandler>>, U0, PhantomData<[u32]>) where U0: SystemData<'a>;
-shredh::zoo_case!(c1827, 1827, 'a, (Z1827_0<'a, Z1827_1<'a>>, (Z1827_2<'a, Write<'a, D1>>, ((), ), (Read<'a, D1, Hc<D2>>, ), ), ));
-#[derive(SystemData)] pub struct Z1835_2<'a, T0: Resource + ZRes, T1: Debug + Resource + for<'b> Hrtb<'b>>(Write<'a, T0, DefaultProvider>, Read<'a, T1>, ());
-#[derive(SystemData)] pub struct Z1835_1<'a>(Z1835_2<'a, D4, D4>, Write<'a, D0, Hc<D3>>, PhantomData<[u32]>, ());
-#[derive(SystemData)] pub struct Z1835_0<'a>(Z1835_1<'a>, (Read<'a, D4, PanicHandler>, ));
-shredh::zoo_case!(c1835, 1835, 'a, Z1835_0<'a>);
-#[derive(SystemData)] pub struct Z1843_2<'a, 'x, T0, T1> where T0: Debug + Resource + for<'b> Hrtb<'b>, T1: Debug + Resource + for<'b> Hrtb<'b> { f0: (), f1: PhantomData<&'x i64>, f2: Read<'a, T0, Hc<D3>>, f3: Write<'a, T1>, }
-#[derive(SystemData)] pub struct Z1843_1<'a> { f0: Z1843_2<'a, 'a, D0, D2>, }
-#[derive(SystemData)] pub struct Z1843_0<'a> { f0: Z1843_1<'a>, }
-shredh::zoo_case!(c1843, 1843, 'a, Z1843_0<'a>);
-#[derive(SystemData)] pub struct Z1851_0<'a, T0: Resource + ZRes, T1: Debug + Resource> { f0: (Read<'a, D1>, ), f1: Read<'a, T0, PanicHandler>, f2: Option<ReadExpect<'a, T1>>, }
-shredh::zoo_case!(c1851, 1851, 'a, Z1851_0<'a, D0, D0>);
-#[derive(SystemData)] pub struct Z1859_0<'a>(PhantomData<&'a u8>);
-#[derive(SystemData)] pub struct Z1859_2<'a>(Read<'a, D2, PanicHandler>, Write<'a, D2, PanicHandler>, WriteExpect<'a, D3>);
-#[derive(SystemData)] pub struct Z1859_1<'a>(pub Option<WriteExpect<'a, D3>>, pub (Read<'a, D2, Hc<D3>>, ), pub Z1859_2<'a>);
-shredh::zoo_case!(c1859, 1859, 'a, (Z1859_0<'a>, Z1859_1<'a>, Read<'a, D3, PanicHandler>, ));
-#[derive(SystemData)] pub struct Z1867_1<'a, U0: SystemData<'a>, U1: SystemData<'a>> { f0: U0, f1: U1, f2: Option<ReadExpect<'a, D1>>, f3: Option<Read<'a, D3>>, }
-#[derive(SystemData)] pub struct Z1867_2<'a> { f0: Read<'a, D2, Hc<D1>>, f1: Write<'a, D1>, f2: Option<Read<'a, D3, PanicHandler>>, f3: (), }
-#[derive(SystemData)] pub struct Z1867_4<'a> { f0: PhantomData<u8>, f1: Option<ReadExpect<'a, D3>>, f2: Option<Write<'a, D2>>, }
-#[derive(SystemData)] pub struct Z1867_3<'a> { pub f0: Write<'a, D1>, pub f1: Z1867_4<'a>, pub f2: (Read<'a, D2, DefaultProvider>, ), }
-#[derive(SystemData)] pub struct Z1867_0<'a> { pub f0: (Z1867_1<'a, Option<Write<'a, D1>>, Option<Read<'a, D3, PanicHandler>>>, Read<'a, D3, Hc<D2>>, ((), ), ((), ), ), pub f1: (Z1867_2<'a>, PhantomData<(Write<'a, D1>,)>, Write<'a, D3, DefaultProvider>, ), pub f2: Z1867_3<'a>, }
-shredh::zoo_case!(c1867, 1867, 'a, Z1867_0<'a>);
-#[derive(SystemData)] pub struct Z1875_0<'a> { f0: PhantomData<D0>, f1: (), f2: Write<'a, D4, DefaultProvider>, f3: Read<'a, N15, PanicHandler>, f4: PhantomData<str>, f5: PhantomData<u8>, f6: Write<'a, D9, DefaultProvider>, f7: PhantomData<u8>, f8: Option<Read<'a, N21>>, f9: PhantomData<dyn Send>, f10: PhantomData<[u32]>, f11: (), f12: Write<'a, D13, Hc<D9>>, }
-shredh::zoo_case!(c1875, 1875, 'a, Z1875_0<'a>);
-shredh::zoo_case!(c1883, 1883, 'a, (Read<'a, D2, DefaultProvider>, Read<'a, D3, PanicHandler>, PhantomData<D0>, Read<'a, D2, DefaultProvider>, Read<'a, D3, DefaultProvider>, Read<'a, D1, DefaultProvider>, PhantomData<dyn Send>, Option<ReadExpect<'a, D4>>, Option<ReadExpect<'a, D5>>, Read<'a, D2, PanicHandler>, (), Option<Read<'a, D3, PanicHandler>>, PhantomData<D0>, Read<'a, D1, DefaultProvider>, (), Read<'a, D5, DefaultProvider>, Read<'a, D1, PanicHandler>, ));
-#[derive(SystemData)] pub struct Z1891_0<'a, 'x, T0: Debug + Resource, T1: Debug + Resource + Default, T2: Resource> { pub f0: Read<'a, T0, PanicHandler>, pub f1: PhantomData<&'x i64>, pub f2: (), pub f3: Option<Read<'a, D3, PanicHandler>>, pub f4: ReadExpect<'a, D2>, pub f5: Read<'a, T1>, pub f6: Read<'a, T2, PanicHandler>, pub f7: Read<'a, D3, PanicHandler>, pub f8: Read<'a, D3>, pub f9: Read<'a, D3>, pub f10: (), pub f11: PhantomData<str>, pub f12: Read<'a, D2>, pub f13: Read<'a, D2>, pub f14: Read<'a, D3, PanicHandler>, pub f15: PhantomData<(Write<'a, D1>,)>, pub f16: Option<Read<'a, D3, PanicHandler>>, pub f17: Option<Read<'a, D3, PanicHandler>>, }
-shredh::zoo_case!(c1891, 1891, 'a, Z1891_0<'a, 'a, D2, D3, D3>);
-#[derive(SystemData)] pub struct Z1899_0<'a, 'x>(Read<'a, D4, DefaultProvider>, PhantomData<&'x i64>, Option<Read<'a, N2>>, PhantomData<u8>);
-shredh::zoo_case!(c1899, 1899, 'a, Z1899_0<'a, 'a>);
-#[derive(SystemData)] pub struct Z1907_0<'a, U0: SystemData<'a>> { pub f0: U0, pub f1: Read<'a, D2, PanicHandler>, pub f2: Read<'a, N0, PanicHandler>, pub f3: PhantomData<fn() -> N2>, pub f4: Option<ReadExpect<'a, N1>>, }
-shredh::zoo_case!(c1907, 1907, 'a, Z1907_0<'a, PhantomData<D0>>);
-shredh::zoo_case!(c1915, 1915, 'a, (Write<'a, N19, PanicHandler>, Read<'a, D16>, Option<Write<'a, D0>>, Write<'a, D18, Hc<D0>>, WriteExpect<'a, N12>, Read<'a, D11, DefaultProvider>, Write<'a, D13, Hc<D11>>, Write<'a, D10, PanicHandler>, Write<'a, D5, Hc<D13>>, (), Write<'a, D4, DefaultProvider>, ));
-#[derive(SystemData)] pub struct Z1923_0<'a>(pub Option<Read<'a, N0, PanicHandler>>, pub Read<'a, D4, DefaultProvider>, pub Read<'a, D3>, pub ReadExpect<'a, D3>, pub PhantomData<str>, pub Read<'a, D3, PanicHandler>, pub ());
-shredh::zoo_case!(c1923, 1923, 'a, Z1923_0<'a>);
-#[derive(SystemData)] pub struct Z1931_1<'a, T0: Debug + Resource + Default, T1: Resource> { f0: Read<'a, T0, DefaultProvider>, f1: Write<'a, D3, PanicHandler>, f2: Read<'a, T1, Hc<D6>>, }
-#[derive(SystemData)] pub struct Z1931_0<'a, T0, T1>(Read<'a, D7, Hc<D5>>, Z1931_1<'a, D5, D2>, Write<'a, T0, PanicHandler>, ReadExpect<'a, D7>, Write<'a, T1, Hc<D4>>) where T0: Resource, T1: Debug + Resource;
-shredh::zoo_case!(c1931, 1931, 'a, Z1931_0<'a, D6, D0>);
-#[derive(SystemData)] pub struct Z1939_0<'a, T0: Resource + ZRes + Default, T1: Resource + ZRes, T2: Debug + Resource + Default>(pub Write<'a, D3>, pub PhantomData<u8>, pub Write<'a, T0, DefaultProvider>, pub Write<'a, D3, PanicHandler>, pub Option<Read<'a, T1>>, pub (), pub Write<'a, T2>, pub Read<'a, D0, Hc<D1>>, pub ReadExpect<'a, D3>, pub Read<'a, D3, Hc<D1>>, pub Write<'a, D1, Hc<D0>>, pub PhantomData<T0>, pub Option<Write<'a, D0, PanicHandler>>, pub PhantomData<dyn Send>, pub Write<'a, D0, Hc<D3>>, pub WriteExpect<'a, D3>, pub Read<'a, D3, Hc<D1>>, pub Read<'a, D3, Hc<D1>>, pub PhantomData<T0>);
-shredh::zoo_case!(c1939, 1939, 'a, Z1939_0<'a, D3, D0, D0>);
-shredh::zoo_case!(c1947, 1947, 'a, (Read<'a, D1, PanicHandler>, (), Read<'a, D3, PanicHandler>, Read<'a, D1, PanicHandler>, PhantomData<D0>, PhantomData<str>, PhantomData<str>, Read<'a, D3, DefaultProvider>, (), PhantomData<[u32]>, Read<'a, D3, DefaultProvider>, ReadExpect<'a, D3>, PhantomData<dyn Send>, Read<'a, D3>, Read<'a, D1, PanicHandler>, Option<ReadExpect<'a, D1>>, PhantomData<[u32]>, Read<'a, D1>, Option<Read<'a, D3>>, Read<'a, D3>, ));
-shredh::zoo_case!(c1955, 1955, 'a, (Option<Read<'a, N19, PanicHandler>>, Write<'a, D21, Hc<D25>>, Read<'a, D5, Hc<D18>>, Option<Write<'a, N23>>, Write<'a, D25, DefaultProvider>, (), Read<'a, N14, PanicHandler>, Option<ReadExpect<'a, D0>>, (), Read<'a, D18, Hc<D22>>, Option<Read<'a, N16, PanicHandler>>, (), PhantomData<&'a u8>, Read<'a, D7, Hc<D0>>, Read<'a, D4, Hc<D9>>, Write<'a, D22, Hc<D11>>, Option<Read<'a, N3>>, Write<'a, D2>, ));
-#[derive(SystemData)] pub struct Z1963_1<'a>(pub Option<Read<'a, D0, PanicHandler>>, pub PhantomData<str>);
-#[derive(SystemData)] pub struct Z1963_2<'a, T0, T1> where T0: Debug + Resource, T1: Resource + ZRes { pub f0: Option<ReadExpect<'a, T0>>, pub f1: ReadExpect<'a, T1>, }
-#[derive(SystemData)] pub struct Z1963_3<'a, T0> where T0: Debug + Resource + for<'b> Hrtb<'b> { pub f0: Read<'a, T0, Hc<D2>>, }
-#[derive(SystemData)] pub struct Z1963_4<'a> { pub f0: Write<'a, D2, Hc<D4>>, pub f1: (), pub f2: Read<'a, D1>, }
-#[derive(SystemData)] pub struct Z1963_0<'a, U0: SystemData<'a>, U1: SystemData<'a>, U2: SystemData<'a>>(U0, U1, U2, Z1963_1<'a>, Write<'a, D0, Hc<D2>>, Z1963_2<'a, D4, D2>, (Write<'a, D2, DefaultProvider>, ), Write<'a, D4>, PhantomData<[u32]>, (), (), Read<'a, D1, Hc<D4>>, (), (), (), (Read<'a, D1, Hc<D5>>, PhantomData<dyn Send>, ), Option<Write<'a, D4>>, Write<'a, D1, Hc<D2>>, Read<'a, D2, PanicHandler>, Option<ReadExpect<'a, D4>>, Read<'a, D4>, Write<'a, D5, Hc<D0>>, Z1963_3<'a, D1>, Option<ReadExpect<'a, D2>>, ReadExpect<'a, D2>, Z1963_4<'a>);
-shredh::zoo_case!(c1963, 1963, 'a, Z1963_0<'a, (Option<Write<'a, D1>>, Write<'a, D0, DefaultProvider>, ), Option<Read<'a, D5, PanicHandler>>, PhantomData<(Write<'a, D1>,)>>);
-#[derive(SystemData)] pub struct Z1971_0<'a, T0: Resource + ZRes> { f0: Read<'a, T0, PanicHandler>, }
-#[derive(SystemData)] pub struct Z1971_1<'a>(Option<Read<'a, N0>>);
-#[derive(SystemData)] pub struct Z1971_2<'a>(pub ReadExpect<'a, D5>);
-shredh::zoo_case!(c1971, 1971, 'a, (Option<WriteExpect<'a, D6>>, Read<'a, D5, Hc<D4>>, WriteExpect<'a, D6>, (), Z1971_0<'a, D5>, Option<ReadExpect<'a, D5>>, PhantomData<dyn Send>, PhantomData<str>, PhantomData<u8>, Z1971_1<'a>, Read<'a, D6, Hc<D4>>, Z1971_2<'a>, Write<'a, D6, Hc<D1>>, Write<'a, D1, PanicHandler>, ));
-#[derive(SystemData)] pub struct Z1979_0<'a>(pub (), pub PhantomData<str>, pub Read<'a, D3>, pub Option<Read<'a, D0>>, pub Read<'a, D0>, pub Option<Read<'a, N1, PanicHandler>>, pub (), pub PhantomData<u8>, pub Read<'a, D0, PanicHandler>, pub ReadExpect<'a, D2>, pub Read<'a, D2, DefaultProvider>, pub (), pub ReadExpect<'a, D3>, pub Read<'a, D0, DefaultProvider>, pub (), pub Option<Read<'a, D3>>, pub (), pub Option<Read<'a, D0, PanicHandler>>, pub Option<Read<'a, D0>>, pub Option<Read<'a, D2>>, pub Option<Read<'a, D2>>, pub PhantomData<u8>);
-shredh::zoo_case!(c1979, 1979, 'a, Z1979_0<'a>);
-shredh::zoo_case!(c1987, 1987, 'a, (Read<'a, D23>, Read<'a, D3, DefaultProvider>, PhantomData<(Write<'a, D1>,)>, Write<'a, D0, Hc<D24>>, Read<'a, D24>, Option<Write<'a, D20>>, Write<'a, D21, PanicHandler>, Option<Read<'a, N14, PanicHandler>>, Read<'a, D4>, Read<'a, D9, DefaultProvider>, PhantomData<dyn Send>, Option<ReadExpect<'a, N5>>, Read<'a, D8, Hc<D20>>, Write<'a, D11>, ));
-#[derive(SystemData)] pub struct Z1995_0<'a, 'x>(pub Option<Read<'a, D1, PanicHandler>>, pub Write<'a, D1, DefaultProvider>, pub PhantomData<&'x i64>, pub Write<'a, D6, Hc<D2>>, pub ReadExpect<'a, D6>, pub Read<'a, D1, Hc<D0>>, pub Read<'a, D1>, pub Read<'a, D0>, pub Write<'a, D6>, pub Read<'a, D5>, pub Write<'a, D5, Hc<D3>>, pub Option<WriteExpect<'a, D6>>, pub Read<'a, D5, Hc<D1>>, pub Option<Read<'a, D6>>, pub WriteExpect<'a, D6>, pub Option<ReadExpect<'a, D6>>, pub PhantomData<u8>, pub Option<Write<'a, D0, PanicHandler>>, pub PhantomData<D0>, pub Option<ReadExpect<'a, D5>>, pub PhantomData<u8>, pub ());
-shredh::zoo_case!(c1995, 1995, 'a, Z1995_0<'a, 'static>);
-#[derive(SystemData)] pub struct Z2003_0<'a, 'x, T0: Debug + Resource, T1: Resource, T2> where T2: Resource + ZRes { pub f0: Read<'a, D9>, pub f1: Option<Read<'a, T0, PanicHandler>>, pub f2: Write<'a, T1, Hc<D13>>, pub f3: Read<'a, T2, Hc<D10>>, pub f4: PhantomData<&'x i64>, pub f5: (), pub f6: Option<Read<'a, D12, PanicHandler>>, pub f7: Option<ReadExpect<'a, D22>>, pub f8: Read<'a, N15, PanicHandler>, pub f9: Write<'a, D7, Hc<D10>>, pub f10: Read<'a, D2, Hc<D12>>, pub f11: Write<'a, N18, PanicHandler>, pub f12: PhantomData<u8>, pub f13: Option<Write<'a, N3, PanicHandler>>, pub f14: Read<'a, D11, DefaultProvider>, pub f15: Read<'a, N5, PanicHandler>, }
-shredh::zoo_case!(c2003, 2003, 'a, Z2003_0<'a, 'static, D10, D17, D13>);
-#[derive(SystemData)] pub struct Z2011_0<'a, 'x, T0, T1, T2: Debug + Resource + for<'b> Hrtb<'b>> where T0: Debug + Resource + for<'b> Hrtb<'b>, T1: Debug + Resource + for<'b> Hrtb<'b> { pub f0: Write<'a, T0, Hc<D1>>, pub f1: PhantomData<&'x i64>, pub f2: Write<'a, T1, PanicHandler>, pub f3: Write<'a, D4>, pub f4: WriteExpect<'a, N2>, pub f5: Read<'a, T2, Hc<D3>>, }
-shredh::zoo_case!(c2011, 2011, 'a, Z2011_0<'a, 'static, D5, D3, D0>);
-#[derive(SystemData)] pub struct Z2019_1<'a, T0: Resource, T1: Resource + ZRes>(WriteExpect<'a, T0>, Write<'a, T1, PanicHandler>, Read<'a, D3, Hc<D2>>);
-#[derive(SystemData)] pub struct Z2019_2<'a>(Read<'a, D2, Hc<D1>>, Write<'a, D0, PanicHandler>, Write<'a, D1, PanicHandler>);
-#[derive(SystemData)] pub struct Z2019_0<'a, U0, U1, U2>(Write<'a, D2>, Write<'a, D2, DefaultProvider>, U0, U1, U2, Z2019_1<'a, D1, D0>, WriteExpect<'a, D3>, PhantomData<str>, Option<Write<'a, D0, PanicHandler>>, Option<ReadExpect<'a, D2>>, Write<'a, D0, DefaultProvider>, Write<'a, D0, Hc<D3>>, ReadExpect<'a, D3>, (Write<'a, D1>, PhantomData<D0>, Read<'a, D1, Hc<D2>>, ), (PhantomData<&'a u8>, Option<ReadExpect<'a, D1>>, ), (Write<'a, D3>, ), Z2019_2<'a>, (ReadExpect<'a, D3>, (), ), Option<Write<'a, D0>>, (Write<'a, D2, Hc<D3>>, WriteExpect<'a, D0>, Read<'a, D0, PanicHandler>, ), PhantomData<u8>, Option<WriteExpect<'a, D3>>, Option<Write<'a, D2>>) where U0: SystemData<'a>, U1: SystemData<'a>, U2: SystemData<'a>;
-shredh::zoo_case!(c2019, 2019, 'a, Z2019_0<'a, Read<'a, D3>, (Read<'a, D0, DefaultProvider>, Write<'a, D2, DefaultProvider>, ), Write<'a, D0, Hc<D2>>>);
-#[derive(SystemData)] pub struct Z2027_0<'a, U0: SystemData<'a>, U1: SystemData<'a>, U2: SystemData<'a>>(pub Read<'a, D18, Hc<D22>>, pub U0, pub U1, pub Write<'a, D7, Hc<D18>>, pub Option<Write<'a, D25>>, pub U2, pub Option<WriteExpect<'a, N1>>, pub Write<'a, D13, DefaultProvider>, pub Option<Write<'a, D17, PanicHandler>>, pub Option<WriteExpect<'a, N2>>, pub Write<'a, D22, Hc<D19>>);
-shredh::zoo_case!(c2027, 2027, 'a, Z2027_0<'a, (), Read<'a, D24, PanicHandler>, Read<'a, D20, Hc<D17>>>);
-#[derive(SystemData)] pub struct Z2035_0<'a, U0, U1, U2>(PhantomData<(Write<'a, D1>,)>, Read<'a, D1, DefaultProvider>, U0, U1, Option<Read<'a, D2>>, Option<Read<'a, D2>>, U2, Read<'a, D2>, Read<'a, D1, PanicHandler>, (), Read<'a, D1, DefaultProvider>, PhantomData<(Write<'a, D1>,)>, PhantomData<D0>, PhantomData<fn() -> N2>) where U0: SystemData<'a>, U1: SystemData<'a>, U2: SystemData<'a>;
-shredh::zoo_case!(c2035, 2035, 'a, Z2035_0<'a, Read<'a, D2>, ReadExpect<'a, D2>, ReadExpect<'a, D2>>);
-#[derive(SystemData)] pub struct Z2043_1<'a>(PhantomData<&'a u8>, ());
-#[derive(SystemData)] pub struct Z2043_0<'a, U0>((Read<'a, D1, Hc<D3>>, ), (), (), U0) where U0: SystemData<'a>;
-shredh::zoo_case!(c2043, 2043, 'a, Z2043_0<'a, Z2043_1<'a>>);
-#[derive(SystemData)] pub struct Z2051_0<'a, U0: SystemData<'a>> { f0: Write<'a, D1, DefaultProvider>, f1: U0, }
-#[derive(SystemData)] pub struct Z2051_1<'a>(Write<'a, D1, Hc<D0>>, Write<'a, D3, PanicHandler>, Option<Read<'a, D1>>);
-#[derive(SystemData)] pub struct Z2051_2<'a> { f0: Write<'a, D0>, f1: Read<'a, D0, PanicHandler>, }
-shredh::zoo_case!(c2051, 2051, 'a, ((Read<'a, D0, DefaultProvider>, Write<'a, D3>, Option<Write<'a, D0>>, ), ReadExpect<'a, D1>, Write<'a, D1, Hc<D0>>, Write<'a, D0, DefaultProvider>, Read<'a, D0, Hc<D3>>, Read<'a, D0>, Option<Read<'a, D3, PanicHandler>>, Z2051_0<'a, Write<'a, D1, Hc<D3>>>, Z2051_1<'a>, (), Z2051_2<'a>, PhantomData<fn() -> N2>, (Read<'a, D1, Hc<D3>>, ReadExpect<'a, D1>, Option<ReadExpect<'a, D3>>, ), (), WriteExpect<'a, D1>, Write<'a, D1, Hc<D0>>, PhantomData<[u32]>, Write<'a, D0, Hc<D3>>, Read<'a, D1, Hc<D3>>, (Write<'a, D0>, Read<'a, D1>, ), Write<'a, D0, DefaultProvider>, WriteExpect<'a, D0>, Write<'a, D0, Hc<D3>>, (Read<'a, D0, Hc<D1>>, (), ReadExpect<'a, D3>, ), ));
-#[derive(SystemData)] pub struct Z2059_0<'a> { f0: Option<ReadExpect<'a, N0>>, f1: PhantomData<dyn Send>, f2: PhantomData<[u32]>, f3: (), f4: Option<Read<'a, D1, PanicHandler>>, f5: Option<ReadExpect<'a, N0>>, }
-shredh::zoo_case!(c2059, 2059, 'a, Z2059_0<'a>);
-#[derive(SystemData)] pub struct Z2067_0<'a, T0, T1, T2>(Write<'a, T0>, Option<ReadExpect<'a, N25>>, (), Option<Read<'a, D3>>, Read<'a, T1>, Write<'a, T2>, Write<'a, N2, PanicHandler>, Write<'a, N18, PanicHandler>, Write<'a, D24, PanicHandler>, Read<'a, D5, Hc<D3>>, Write<'a, D11, DefaultProvider>, Write<'a, D17, DefaultProvider>, (), (), PhantomData<str>, Read<'a, D12, Hc<D13>>, Write<'a, N23, PanicHandler>, Write<'a, D14, Hc<D19>>, PhantomData<fn() -> N2>, (), Option<Write<'a, N8>>, Read<'a, D20, DefaultProvider>, (), Option<Write<'a, D19>>, (), Write<'a, D7, DefaultProvider>) where T0: Debug + Resource, T1: Debug + Resource + for<'b> Hrtb<'b> + Default, T2: Resource;
-shredh::zoo_case!(c2067, 2067, 'a, Z2067_0<'a, D16, D22, D21>);
-#[derive(SystemData)] pub struct Z2075_0<'a, U0>(U0, Option<Read<'a, N1, PanicHandler>>) where U0: SystemData<'a>;
-#[derive(SystemData)] pub struct Z2075_1<'a>(pub Option<ReadExpect<'a, D5>>);
-shredh::zoo_case!(c2075, 2075, 'a, (Read<'a, D7, DefaultProvider>, Read<'a, D5, Hc<D3>>, Option<ReadExpect<'a, D3>>, Write<'a, D4, PanicHandler>, Z2075_0<'a, ()>, Option<WriteExpect<'a, D5>>, (Write<'a, D5>, (), ), Write<'a, D6>, Write<'a, D2, Hc<D5>>, Read<'a, D7, DefaultProvider>, Read<'a, D4, Hc<D2>>, Z2075_1<'a>, (), ));
-#[derive(SystemData)] pub struct Z2083_0<'a>(pub Write<'a, D19, Hc<D1>>);
-#[derive(SystemData)] pub struct Z2083_1<'a>(pub Read<'a, D3, Hc<D18>>);
-#[derive(SystemData)] pub struct Z2083_2<'a> { pub f0: Write<'a, D8, DefaultProvider>, pub f1: Option<ReadExpect<'a, D22>>, pub f2: Write<'a, D1, DefaultProvider>, }
-#[derive(SystemData)] pub struct Z2083_3<'a> { f0: Write<'a, D3, DefaultProvider>, }
-shredh::zoo_case!(c2083, 2083, 'a, (Z2083_0<'a>, (Write<'a, D3, Hc<D1>>, ), Write<'a, D16, PanicHandler>, Write<'a, D22, DefaultProvider>, Option<Write<'a, D6>>, Option<Write<'a, D19, PanicHandler>>, (), (), Option<Read<'a, D8, PanicHandler>>, PhantomData<fn() -> N2>, Write<'a, D3, Hc<D8>>, WriteExpect<'a, D22>, (Write<'a, D8>, ), Read<'a, D16, Hc<D1>>, Write<'a, D6, Hc<D19>>, Z2083_1<'a>, (Write<'a, D16, Hc<D6>>, Read<'a, D18, PanicHandler>, Read<'a, D22, PanicHandler>, ), (Option<ReadExpect<'a, D18>>, Write<'a, D8, Hc<D22>>, Write<'a, D8, PanicHandler>, ), Z2083_2<'a>, Read<'a, D22, Hc<D16>>, (), Write<'a, D6>, ReadExpect<'a, D1>, Read<'a, D16, Hc<D3>>, (), Z2083_3<'a>, ));
-#[derive(SystemData)] pub struct Z2091_0<'a, 'x>(Read<'a, D0, DefaultProvider>, PhantomData<&'x i64>);
-#[derive(SystemData)] pub struct Z2091_1<'a, T0>(pub Option<Read<'a, T0, PanicHandler>>) where T0: Resource + ZRes;
-shredh::zoo_case!(c2091, 2091, 'a, (Read<'a, D1, DefaultProvider>, ReadExpect<'a, D0>, Option<Write<'a, D4, PanicHandler>>, PhantomData<[u32]>, WriteExpect<'a, D2>, Z2091_0<'a, 'static>, Option<Read<'a, D1, PanicHandler>>, Read<'a, D2, Hc<D1>>, Z2091_1<'a, D2>, Read<'a, D4, Hc<D2>>, ));
-pub static CASES: &[&shredh::zoo::Ops] = &[
-    &c3::OPS,
-    &c11::OPS,
-    &c19::OPS,
-    &c27::OPS,
-    &c35::OPS,
-    &c43::OPS,
-    &c51::OPS,
-    &c59::OPS,
-    &c67::OPS,
-    &c75::OPS,
-    &c83::OPS,
-    &c91::OPS,
-    &c99::OPS,
-    &c107::OPS,
-    &c115::OPS,
-    &c123::OPS,
-    &c131::OPS,
-    &c139::OPS,
-    &c147::OPS,
-    &c155::OPS,
-    &c163::OPS,
-    &c171::OPS,
-    &c179::OPS,
-    &c187::OPS,
-    &c195::OPS,
-    &c203::OPS,
-    &c211::OPS,
-    &c219::OPS,
-    &c227::OPS,
-    &c235::OPS,
-    &c243::OPS,
-    &c251::OPS,
-    &c259::OPS,
-    &c267::OPS,
-    &c275::OPS,
-    &c283::OPS,
-    &c291::OPS,
-    &c299::OPS,
-    &c307::OPS,
-    &c315::OPS,
-    &c323::OPS,
-    &c331::OPS,
-    &c339::OPS,
-    &c347::OPS,
-    &c355::OPS,
-    &c363::OPS,
-    &c371::OPS,
-    &c379::OPS,
-    &c387::OPS,
-    &c395::OPS,
-    &c403::OPS,
-    &c411::OPS,
-    &c419::OPS,
-    &c427::OPS,
-    &c435::OPS,
-    &c443::OPS,
-    &c451::OPS,
-    &c459::OPS,
-    &c467::OPS,
-    &c475::OPS,
-    &c483::OPS,
-    &c491::OPS,
-    &c499::OPS,
-    &c507::OPS,
-    &c515::OPS,
-    &c523::OPS,
-    &c531::OPS,
-    &c539::OPS,
-    &c547::OPS,
-    &c555::OPS,
-    &c563::OPS,
-    &c571::OPS,
-    &c579::OPS,
-    &c587::OPS,
-    &c595::OPS,
-    &c603::OPS,
-    &c611::OPS,
-    &c619::OPS,
-    &c627::OPS,
-    &c635::OPS,
-    &c643::OPS,
-    &c651::OPS,
-    &c659::OPS,
-    &c667::OPS,
-    &c675::OPS,
-    &c683::OPS,
-    &c691::OPS,
-    &c699::OPS,
-    &c707::OPS,
-    &c715::OPS,
-    &c723::OPS,
-    &c731::OPS,
-    &c739::OPS,
-    &c747::OPS,
-    &c755::OPS,
-    &c763::OPS,
-    &c771::OPS,
-    &c779::OPS,
-    &c787::OPS,
-    &c795::OPS,
-    &c803::OPS,
-    &c811::OPS,
-    &c819::OPS,
-    &c827::OPS,
-    &c835::OPS,
-    &c843::OPS,
-    &c851::OPS,
-    &c859::OPS,
-    &c867::OPS,
-    &c875::OPS,
-    &c883::OPS,
-    &c891::OPS,
-    &c899::OPS,
-    &c907::OPS,
-    &c915::OPS,
-    &c923::OPS,
-    &c931::OPS,
-    &c939::OPS,
-    &c947::OPS,
-    &c955::OPS,
-    &c963::OPS,
-    &c971::OPS,
-    &c979::OPS,
-    &c987::OPS,
-    &c995::OPS,
-    &c1003::OPS,
-    &c1011::OPS,
-    &c1019::OPS,
-    &c1027::OPS,
-    &c1035::OPS,
-    &c1043::OPS,
-    &c1051::OPS,
-    &c1059::OPS,
-    &c1067::OPS,
-    &c1075::OPS,
-    &c1083::OPS,
-    &c1091::OPS,
-    &c1099::OPS,
-    &c1107::OPS,
-    &c1115::OPS,
-    &c1123::OPS,
-    &c1131::OPS,
-    &c1139::OPS,
-    &c1147::OPS,
-    &c1155::OPS,
-    &c1163::OPS,
-    &c1171::OPS,
-    &c1179::OPS,
-    &c1187::OPS,
-    &c1195::OPS,
-    &c1203::OPS,
-    &c1211::OPS,
-    &c1219::OPS,
-    &c1227::OPS,
-    &c1235::OPS,
-    &c1243::OPS,
-    &c1251::OPS,
-    &c1259::OPS,
-    &c1267::OPS,
-    &c1275::OPS,
-    &c1283::OPS,
-    &c1291::OPS,
-    &c1299::OPS,
-    &c1307::OPS,
-    &c1315::OPS,
-    &c1323::OPS,
-    &c1331::OPS,
-    &c1339::OPS,
-    &c1347::OPS,
-    &c1355::OPS,
-    &c1363::OPS,
-    &c1371::OPS,
-    &c1379::OPS,
-    &c1387::OPS,
-    &c1395::OPS,
-    &c1403::OPS,
-    &c1411::OPS,
-    &c1419::OPS,
-    &c1427::OPS,
-    &c1435::OPS,
-    &c1443::OPS,
-    &c1451::OPS,
-    &c1459::OPS,
-    &c1467::OPS,
-    &c1475::OPS,
-    &c1483::OPS,
-    &c1491::OPS,
-    &c1499::OPS,
-    &c1507::OPS,
-    &c1515::OPS,
-    &c1523::OPS,
-    &c1531::OPS,
-    &c1539::OPS,
-    &c1547::OPS,
-    &c1555::OPS,
-    &c1563::OPS,
-    &c1571::OPS,
-    &c1579::OPS,
-    &c1587::OPS,
-    &c1595::OPS,
-    &c1603::OPS,
-    &c1611::OPS,
-    &c1619::OPS,
-    &c1627::OPS,
-    &c1635::OPS,
-    &c1643::OPS,
-    &c1651::OPS,
-    &c1659::OPS,
-    &c1667::OPS,
-    &c1675::OPS,
-    &c1683::OPS,
-    &c1691::OPS,
-    &c1699::OPS,
-    &c1707::OPS,
-    &c1715::OPS,
-    &c1723::OPS,
-    &c1731::OPS,
-    &c1739::OPS,
-    &c1747::OPS,
-    &c1755::OPS,
-    &c1763::OPS,
-    &c1771::OPS,
-    &c1779::OPS,
-    &c1787::OPS,
-    &c1795::OPS,
-    &c1803::OPS,
-    &c1811::OPS,
-    &c1819::OPS,
-    &c1827::OPS,
-    &c1835::OPS,
-    &c1843::OPS,
-    &c1851::OPS,
-    &c1859::OPS,
-    &c1867::OPS,
-    &c1875::OPS,
-    &c1883::OPS,
-    &c1891::OPS,
-    &c1899::OPS,
-    &c1907::OPS,
-    &c1915::OPS,
-    &c1923::OPS,
-    &c1931::OPS,
-    &c1939::OPS,
-    &c1947::OPS,
-    &c1955::OPS,
-    &c1963::OPS,
-    &c1971::OPS,
-    &c1979::OPS,
-    &c1987::OPS,
-    &c1995::OPS,
-    &c2003::OPS,
-    &c2011::OPS,
-    &c2019::OPS,
-    &c2027::OPS,
-    &c2035::OPS,
-    &c2043::OPS,
-    &c2051::OPS,
-    &c2059::OPS,
-    &c2067::OPS,
-    &c2075::OPS,
-    &c2083::OPS,
-    &c2091::OPS,
-];
+// placeholder written by harness/gen/zoo.py (the real file is a build artefact of bin/check C06)
+pub const GEN_HASH: &str = "placeholder";
+pub static CASES: &[&shredh::zoo::Ops] = &[];
